@@ -1,5 +1,17 @@
 """M2 tasks on the SERVER side of tlslite/tlsconnection.py (C03, C04, C05, C08, C11, C13, C19).
 
+Tasks (key `m2:<name>`; properties):
+  _serverGetClientHello/version-negotiation (C03)  /fallback-scsv (C04)  /resumed-serverhello-sentinel (C04)
+      /cipher-suites (C03)  /record-size-limit (C19,C08,C03)  /peer-controlled-dereferences (C08)
+      /resumption (C13)  /hello-retry (C04)
+  _handshakeServerAsyncHelper/downgrade-sentinel (C04)  /completion-record (C03,C05,C13,C04)
+  _server_select_certificate/selection (C03)   _ticket_to_session/guards, _tryDecrypt/guards (C13)
+  _serverSendTickets/payload (C03,C13)   _serverTLS13Handshake/peer-identity (C05,C13)  /locals-bound (C08)
+  _serverCertKeyExchange/client-auth-and-uniformity (C05,C11)   calcVerifyBytes/premaster-use (C11)
+  _serverSRPKeyExchange/alerts-and-result (C05,C08)  _serverAnonKeyExchange/alerts-and-result (C08)
+  _serverFinished/order (C04,C03,C13)
+Non-vacuity: `M2S_FLIP='*' python3-vt -m pyvc.run1 contracts.m2_server` negates every goal; all must be refuted.
+
 Executor: pyvc/m2x.py (M2 + site hooks, loop refinement, 3-way generator idiom).  Every obligation is taken
 from the property text / the RFC named in its comment, not from what the code does.  Expected refutations on
 the pinned tree (each reproduced on the real code, see specs/m2_server.py and design_probes/f17..f19):
@@ -11,6 +23,10 @@ the pinned tree (each reproduced on the real code, see specs/m2_server.py and de
                                                                                        -> AttributeError
   F19 `selected_group` unbound in _serverTLS13Handshake (psk_ke only, PSK not accepted, no key_share)
                                                                                        -> UnboundLocalError
+  F20 `assert False` in _serverGetClientHello for a server configured with settings.virtual_hosts only (which
+      _handshakeServerAsyncHelper accepts as credentials)                              -> AssertionError
+  F21 the ServerHello of an abbreviated (session-ID / ticket) handshake never carries the RFC 8446 4.1.3
+      downgrade sentinel although the server supports TLS 1.3                          -> C04 (RFC MUST)
 """
 import ast
 
@@ -130,8 +146,30 @@ def order_facts(formulas):
     return facts
 
 
+def gv(g, k):
+    """Val term of ghost fact k; a fact that was never recorded is a fresh unknown (nothing is provable of it)"""
+    v = g.get(k)
+    if v is None:
+        return z3.Const(fresh_name_('missing_ghost_' + k), Val)
+    return to_val(v)
+
+
+def fresh_name_(base):
+    from pyvc.values import fresh_name
+    return fresh_name(base)
+
+
+def ob(ex, st, name, goal, kind='m2'):
+    """ex.oblige that also accepts a python bool (a missing ghost fact is `False`, not a crash)"""
+    if isinstance(goal, bool):
+        goal = z3.BoolVal(goal)
+    ex.oblige(st, name, goal, kind=kind)
+
+
 def oblige_ordered(ex, st, name, goal, extra=()):
     """obligation `goal` under the version-order facts for the comparison terms of pc and goal"""
+    if isinstance(goal, bool):
+        goal = z3.BoolVal(goal)
     fs = order_facts(list(st.pc) + [goal] + list(extra))
     ex.oblige(st, name, z3.Implies(z3.And(fs + list(extra) + [z3.BoolVal(True)]), goal), kind='m2')
 
@@ -158,6 +196,16 @@ def src(node):
         return ast.unparse(node)
     except Exception:
         return '?'
+
+
+# ---- python lists embedded into Val by the M2X merge: [x] is v_concat(v_empty_list, v_list1(x)) ---------------
+
+def list_facts(formulas):
+    fs = []
+    for e in apps(formulas, lambda e: e.decl().name() == 'v_concat' and e.arg(0).eq(V_EMPTY_LIST)
+                  and z3.is_app(e.arg(1)) and e.arg(1).decl().name() == 'v_list1'):
+        fs.append(z3.And(V_GETITEM(e, v_int(z3.IntVal(0))) == e.arg(1).arg(0), v_truthy(e), V_LEN(e) == 1))
+    return fs
 
 
 # ---- names that may be unbound ----------------------------------------------------------------------------
@@ -190,9 +238,31 @@ def make_on_name(names, done=None):
         if name in names and isinstance(val, VOpaque) and term_mentions(val.t, [UNBOUND(name)]):
             where = site(fr, node, lambda n: isinstance(n, ast.Name) and n.id == name and isinstance(n.ctx, ast.Load),
                          name)
-            ex.oblige(st, 'C08:local-bound-at-use:%s' % where,
+            ob(ex, st, 'C08:local-bound-at-use:%s' % where,
                       z3.Not(unbound_cond(val.t, UNBOUND(name))), kind='m2')
+            # (execution continues only if the name was bound: later uses are not blamed again)
+            st.assume(z3.Not(unbound_cond(val.t, UNBOUND(name))))
     return on_name
+
+
+# ---- non-vacuity switch: M2S_FLIP=<substring|*> negates the goal of every matching obligation after the run;
+# each flipped obligation must then be refuted (its path condition is satisfiable and the goal is not void)
+
+def m2s(name, prop, qual, spec, check, setup=None, doc='', opts=None, keep=None):
+    """keep: predicate on obligation names -- one execution poses obligations of several properties; a task
+    keeps those of its own property so that an expected refutation shows up under that property only"""
+    import os
+
+    def check2(api):
+        check(api)
+        if keep is not None:
+            api.ex.obligations[:] = [ob for ob in api.ex.obligations if keep(ob.name)]
+        pat = os.environ.get('M2S_FLIP')
+        if pat:
+            for ob in api.ex.obligations:
+                if ob.kind == 'm2' and (pat == '*' or pat in ob.name):
+                    ob.goal = z3.Not(ob.goal)
+    return m2xtask(name, prop, qual, spec, check=check2, setup=setup, doc=doc, opts=opts)
 
 
 # ---------------------------------------------------------------------------------------------------
@@ -276,7 +346,14 @@ def h_select_certificate(ex, recv, args, kwargs, st, fr, node):
     return outs
 
 
+FIELD_LIKE = {'version', '_send_record_limit', '_recv_record_limit'}
+REG.note('C03', 'trusted', 'm2_server: the TLSRecordLayer properties version, _send_record_limit, _recv_record_limit '
+                           'return what their setter stored (tlsrecordlayer.py: getter/setter forward to the same '
+                           'attribute of self._recordLayer; read)')
+
+
 def sgc_setup(ex, st, fr):
+    ex.spec.field_like_properties = FIELD_LIKE
     prebind('selected_group', 'cl_key_share', 'cookie', 'name')(ex, st, fr)
     me = st.env['self']
     for f in ('_send_record_limit', '_recv_record_limit', '_peer_record_size_limit'):
@@ -292,10 +369,36 @@ def _t1():
                          '_server_select_certificate': h_select_certificate},
                   pure=SGC_PURE | set(SUITE_GETTERS) | {'filterForVersion'}, on_yield=exits.on_yield)
 
-    def version_facts(st, version):
-        s = st.env['settings']
-        ch = exits.ch1 if hasattr(exits, 'ch1') else st.env['clientHello']
-        return s, ch
+    rec = {'resumed_sh': 0}
+
+    def on_sub_store(ex, base, tgt, val, st, fr):
+        # any write of a downgrade sentinel (none exists in this function on the pinned tree)
+        from tlslite.constants import TLS_1_2_DOWNGRADE_SENTINEL, TLS_1_1_DOWNGRADE_SENTINEL
+        from pyvc.executor import lift_py
+        for nm, c in (('12', TLS_1_2_DOWNGRADE_SENTINEL), ('11', TLS_1_1_DOWNGRADE_SENTINEL)):
+            try:
+                if z3.is_true(z3.simplify(eq_op(val, lift_py(c)).t)):
+                    st.ghost['sentinel' + nm] = VBool(z3.BoolVal(True))
+                    st.ghost['sentinel_base'] = base
+            except Exception:
+                pass
+
+    def h_create(ex, recv, args, kwargs, st, fr, node):
+        if not (len(args) == 7 and 'extensions' in kwargs):
+            return None
+        # the ServerHello of the abbreviated handshake; RFC 8446 4.1.3 makes no exception for resumption
+        rec['resumed_sh'] += 1
+        maxv = attr_t('maxVersion', T(st.env['settings']))
+        v = T(st.env['version'])
+        s12 = truthy(ex.ghost_get(st, 'sentinel12'))
+        s11 = truthy(ex.ghost_get(st, 'sentinel11'))
+        oblige_ordered(ex, st, 'C04:resumed-ServerHello:TLS1.2-sentinel-iff-version==(3,3)-and-maxVersion>(3,3)',
+                       s12 == z3.And(v == tup(3, 3), CMP['gt'](maxv, tup(3, 3))))
+        oblige_ordered(ex, st, 'C04:resumed-ServerHello:TLS1.1-sentinel-iff-version<(3,3)-and-maxVersion>=(3,3)',
+                       s11 == z3.And(CMP['lt'](v, tup(3, 3)), CMP['ge'](maxv, tup(3, 3))))
+        return None
+    spec.hooks['create'] = h_create
+    spec.on_subscript_store = on_sub_store
 
     def check(api):
         entry = api.entry
@@ -311,8 +414,10 @@ def _t1():
                 ch = st.ghost.get('first_client_hello')
                 ch = T(ch) if ch is not None else None
                 # C03: "every negotiated parameter (version ...) lies inside what each side's own settings allow"
-                oblige_ordered(api.ex, st, 'C03:%s-exit:version-within-server-settings' % kind,
-                               z3.Or(V_IN(v, versions), z3.And(CMP['le'](minv, v), CMP['le'](v, maxv))))
+                oblige_ordered(api.ex, st, 'C03:%s-exit:version-not-above-settings.maxVersion' % kind,
+                               z3.Or(V_IN(v, versions), CMP['le'](v, maxv)))
+                oblige_ordered(api.ex, st, 'C03:%s-exit:version-not-below-settings.minVersion' % kind,
+                               z3.Or(V_IN(v, versions), CMP['le'](minv, v)))
                 if kind == 'full':
                     api.oblige(st, 'C03:full-exit:yielded-version-is-the-negotiated-one', T(val.items[1]) == v)
         # the ClientHello the version was negotiated from: the first one (a second one after HelloRetryRequest must
@@ -320,7 +425,7 @@ def _t1():
         for kind, lst in (('full', exits.full), ('resumed', exits.resumed)):
             for (st, val) in lst:
                 v = T(st.env['version'])
-                ch1 = T(st.ghost['ch1'])
+                ch1 = gv(st.ghost, 'ch1')
                 suites = attr_t('cipher_suites', ch1)
                 cver = attr_t('client_version', ch1)
                 vext = ext_of(st.ghost['ch1'], ExtensionType.supported_versions)
@@ -339,11 +444,12 @@ def _t1():
         api.oblige(entry, 'cover:inappropriate_fallback-abort-exists', len(fb) >= 1)
         for o in fb:
             st = o.st
-            ch1 = T(st.ghost['ch1'])
+            ch1 = gv(st.ghost, 'ch1')
             oblige_ordered(api.ex, st, 'C04:inappropriate_fallback-alert-only-if-SCSV-and-version-below-maxVersion',
                            z3.And(V_IN(SCSV, attr_t('cipher_suites', ch1)), CMP['lt'](T(st.env['version']), maxv)))
         pv = alert_exits(api, AlertDescription.protocol_version)
         api.oblige(entry, 'cover:protocol_version-abort-exists', len(pv) >= 2)
+        api.oblige(entry, 'cover:resumed-ServerHello-site-reached', rec['resumed_sh'] >= 1)
     return spec, check
 
 
@@ -359,9 +465,1890 @@ def h_getMsg_ch(ex, recv, args, kwargs, st, fr, node):
     return [Outcome('normal', st, r)]
 
 
-_spec1, _check1 = _t1()
-_spec1.hooks['_getMsg'] = h_getMsg_ch
-m2xtask('_serverGetClientHello/version-negotiation', ('C03', 'C04'), SGC, _spec1, check=_check1, setup=sgc_setup,
-        doc='server: negotiated version inside settings (versions / [minVersion, maxVersion]) and inside what the '
-            'client offered; TLS 1.3 only via supported_versions; TLS_FALLBACK_SCSV aborts iff version < maxVersion '
-            '(RFC 7507)')
+def _reg_t1():
+    for (nm, prop, keep, doc) in (
+            ('version-negotiation', ('C03',), lambda n: n.startswith('C03:') or n.startswith('cover:'),
+             'server: negotiated version inside settings (versions / [minVersion, maxVersion]) and inside what the '
+             'client offered; TLS 1.3 only via supported_versions'),
+            ('fallback-scsv', ('C04',), lambda n: (n.startswith('C04:') and 'resumed-ServerHello' not in n)
+             or n.startswith('cover:'),
+             'server: TLS_FALLBACK_SCSV aborts with inappropriate_fallback iff version < maxVersion (RFC 7507)'),
+            ('resumed-serverhello-sentinel', ('C04',), lambda n: 'resumed-ServerHello' in n,
+             'server: the ServerHello of an abbreviated handshake carries the RFC 8446 4.1.3 downgrade sentinel '
+             'under the same conditions as the full handshake')):
+        spec, check = _t1()
+        spec.hooks['_getMsg'] = h_getMsg_ch
+        m2s('_serverGetClientHello/' + nm, prop, SGC, spec, check=check, setup=sgc_setup, doc=doc, keep=keep)
+
+
+_reg_t1()
+
+
+# ---------------------------------------------------------------------------------------------------
+# T2  candidate cipher suites (C03)
+
+def _t2():
+    exits = Exits()
+    sources = {}            # id of result term -> (getter name, term)
+
+    def h_getter(ex, recv, args, kwargs, st, fr, node):
+        name = node.func.attr
+        r = fresh_opaque('suites_' + name)
+        sources[r.t.get_id()] = (name, r.t)
+        st.events.append((name, args, r))
+        where = site(fr, node, lambda n: isinstance(n, ast.Call) and isinstance(n.func, ast.Attribute)
+                     and n.func.attr in SUITE_GETTERS, name)
+        # C03: the suites offered for selection are those the server's settings allow for the negotiated version
+        ob(ex, st, 'C03:%s:called-with-the-settings-and-the-negotiated-version' % where,
+                  z3.And(len(args) == 2, T(args[0]) == T(st.env['settings']), T(args[1]) == T(st.env['version'])),
+                  kind='m2')
+        return [Outcome('normal', st, r)]
+
+    def only_sources(t):
+        if t.eq(V_EMPTY_LIST) or t.get_id() in sources:
+            return True
+        if z3.is_app(t) and t.decl().name() == 'v_concat':
+            return only_sources(t.arg(0)) and only_sources(t.arg(1))
+        if z3.is_app(t) and t.decl().kind() == z3.Z3_OP_ITE:
+            return only_sources(t.arg(1)) and only_sources(t.arg(2))
+        return False
+
+    def h_filterForVersion(ex, recv, args, kwargs, st, fr, node):
+        r = fresh_opaque('candidate_suites')
+        st.events.append(('filterForVersion', args, r))
+        lst = args[0]
+        ok = isinstance(lst, VList) and not lst.items or (isinstance(lst, VOpaque) and only_sources(lst.t))
+        ob(ex, st, 'C03:candidate-list-is-built-only-from-CipherSuite.get*Suites(settings, version)-results',
+                  z3.BoolVal(bool(ok)), kind='m2')
+        v = T(st.env['version'])
+        ob(ex, st, 'C03:candidate-list-filtered-to-exactly-the-negotiated-version',
+                  z3.And('minVersion' in kwargs and T(kwargs['minVersion']) == v,
+                         'maxVersion' in kwargs and T(kwargs['maxVersion']) == v), kind='m2')
+        st.ghost['candidates'] = r
+        return [Outcome('normal', st, r)]
+
+    hooks = {'_sendError': h_sendError, 'getFirstMatching': h_getFirstMatching, '_getMsg': h_getMsg_ch,
+             '_server_select_certificate': h_select_certificate, 'filterForVersion': h_filterForVersion}
+    for g in SUITE_GETTERS:
+        hooks[g] = h_getter
+    spec = M2Spec(hooks=hooks, pure=SGC_PURE, on_yield=exits.on_yield)
+
+    def check(api):
+        entry = api.entry
+        api.oblige(entry, 'cover:full-handshake-exit-reached', len(exits.full) >= 1)
+        api.oblige(entry, 'cover:all-ten-suite-getters-reached', len(set(n for n, _ in sources.values())) == 10)
+        for (st, val) in exits.full:
+            sa = st.ghost.get('select_args')
+            sr = st.ghost.get('select_result')
+            cand = st.ghost.get('candidates')
+            if sa is None or sr is None or cand is None:
+                api.oblige(st, 'C03:full-exit:suite-selected-by-_server_select_certificate', False)
+                continue
+            ch1 = st.ghost['ch1']
+            api.oblige(st, 'C03:full-exit:selection-ran-on-(settings, first ClientHello, candidate list, version)',
+                       z3.And(T(sa.items[0]) == T(st.env['settings']), T(sa.items[1]) == T(ch1),
+                              T(sa.items[2]) == T(cand), T(sa.items[5]) == T(st.env['version'])))
+            suite = T(val.items[2])
+            api.oblige(st, 'C03:full-exit:yielded-suite-is-the-selected-one',
+                       suite == V_GETITEM(T(sr), v_int(z3.IntVal(0))))
+            api.oblige(st, 'C03:full-exit:suite-in-candidates-and-in-the-ClientHello-handed-on',
+                       z3.And(V_IN(suite, T(cand)), V_IN(suite, attr_t('cipher_suites', T(val.items[0])))))
+            api.oblige(st, 'C03:full-exit:yielded-signature-scheme-key-and-chain-are-the-selected-ones',
+                       z3.And([T(val.items[k]) == V_GETITEM(T(sr), v_int(z3.IntVal(j)))
+                               for k, j in ((3, 1), (5, 2), (4, 3))]))
+    return spec, check
+
+
+_spec2, _check2 = _t2()
+m2s('_serverGetClientHello/cipher-suites', ('C03',), SGC, _spec2, check=_check2, setup=sgc_setup,
+        doc='server: the candidate suites are CipherSuite.get*Suites(settings, version) results filtered to the '
+            'negotiated version; the yielded suite is the one _server_select_certificate picked from them')
+
+
+# ---------------------------------------------------------------------------------------------------
+# T3  record_size_limit (C19 / C08 / C03; RFC 8449)
+
+def none_tested_expressions(fnode):
+    """source texts of expressions that the function compares with None using is / is not"""
+    out = set()
+    for n in ast.walk(fnode):
+        if isinstance(n, ast.Compare) and len(n.ops) == 1 and isinstance(n.ops[0], (ast.Is, ast.IsNot)) \
+                and isinstance(n.comparators[0], ast.Constant) and n.comparators[0].value is None:
+            out.add(src(n.left))
+    return out
+
+
+def make_none_safety_hook(counter):
+    """C08 None-safety: an order comparison on a value that the same function tests for None must be
+    dominated by that test (else TypeError, an undocumented exception, on peer-controlled input)."""
+    def on_compare(ex, op, a, b, st, fr, node):
+        if not isinstance(op, (ast.Lt, ast.LtE, ast.Gt, ast.GtE)) or not isinstance(node, ast.Compare) \
+                or len(node.ops) != 1:
+            return
+        tested = none_tested_expressions(fr.fs.node)
+        for (v, n) in ((a, node.left), (b, node.comparators[0])):
+            if src(n) in tested and isinstance(v, VOpaque):
+                counter.append(src(n))
+                ob(ex, st, 'C08:none-test-dominates-order-comparison:%s' % src(node), v.t != v_none, kind='m2')
+    return on_compare
+
+
+REG.note('C19', 'trusted',
+         'm2_server/record-size-limit: between the stores and the full-handshake exit of _serverGetClientHello the '
+         'callees (_sendMsgs, _getMsg, message constructors, getRandomBytes) do not assign _send_record_limit / '
+         '_recv_record_limit / _peer_record_size_limit: their only store sites in tlslite/ are '
+         '_clientGetServerHello, _clientTLS13Handshake, _serverGetClientHello, _sendFinished and the '
+         'TLSRecordLayer property setters (the name-based frame scan cannot separate them: 316 names)')
+
+
+def _t3():
+    exits = Exits()
+    stores = {'_send_record_limit': [], '_recv_record_limit': [], '_peer_record_size_limit': []}
+    compared = []
+    P14 = 2 ** 14
+
+    def rsl_of(st):
+        return attr_t('record_size_limit', ext_of(st.ghost['ch1'], ExtensionType.record_size_limit))
+
+    SUB = UF('v_binop_Sub', Val, Val, Val)
+    C14 = v_int(z3.IntVal(P14))
+    ONE = v_int(z3.IntVal(1))
+
+    def vmin(a, b):
+        """Python min(a, b) on opaque values in the abstraction's own symbols"""
+        return z3.If(CMP['lt'](b, a), b, a)
+
+    def mk_store(name):
+        def hook(ex, obj, val, st, fr, node):
+            stores[name].append(1)
+            v = T(st.env['version'])
+            rsl = rsl_of(st)
+            srv = attr_t('record_size_limit', T(st.env['settings']))
+            tls13 = CMP['ge'](v, tup(3, 4))
+            # RFC 8449 section 4: values below 64 are rejected (illegal_parameter) -- so never stored
+            oblige_ordered(ex, st, 'C19:%s:stored-only-for-a-client-limit>=64' % name,
+                           z3.And(CMP['le'](v_int(z3.IntVal(64)), rsl), rsl != v_none))
+            ob(ex, st, 'C19:%s:stored-only-if-the-server-enabled-record_size_limit' % name, v_truthy(srv),
+                      kind='m2')
+            if name == '_send_record_limit':
+                # TLS 1.3: the limit counts the content-type byte, the record layer's limit does not
+                oblige_ordered(ex, st, 'C19:_send_record_limit:set-at-ClientHello-time-only-in-TLS1.3', tls13)
+                oblige_ordered(ex, st, 'C19:_send_record_limit:TLS1.3-value-is-min(2^14, client_limit-1)',
+                               T(val) == vmin(C14, SUB(rsl, ONE)))
+            elif name == '_recv_record_limit':
+                oblige_ordered(ex, st, 'C19:_recv_record_limit:set-at-ClientHello-time-only-in-TLS1.3', tls13)
+                oblige_ordered(ex, st, 'C19:_recv_record_limit:TLS1.3-value-is-min(2^14, own_limit-1)',
+                               T(val) == vmin(C14, SUB(srv, ONE)))
+            else:
+                # TLS <= 1.2: takes effect with the cipher change; the value is the client's limit itself
+                oblige_ordered(ex, st, 'C19:_peer_record_size_limit:used-only-below-TLS1.3', z3.Not(tls13))
+                oblige_ordered(ex, st, 'C19:_peer_record_size_limit:value-is-min(2^14, client_limit)',
+                               T(val) == vmin(C14, rsl))
+        return hook
+
+    spec = M2Spec(hooks={'_sendError': h_sendError, 'getFirstMatching': h_getFirstMatching, '_getMsg': h_getMsg_ch,
+                         '_server_select_certificate': h_select_certificate},
+                  pure=SGC_PURE | set(SUITE_GETTERS) | {'filterForVersion'}, on_yield=exits.on_yield,
+                  on_store=dict((k, mk_store(k)) for k in stores), stable_fields=set(stores))
+    spec.on_compare = make_none_safety_hook(compared)
+
+    def check(api):
+        entry = api.entry
+        me = entry.env['self']
+        for k in stores:
+            api.oblige(entry, 'cover:store-site-reached:%s' % k, len(stores[k]) >= 1)
+        api.oblige(entry, 'cover:none-safety-site-reached:size_limit_ext.record_size_limit',
+                   'size_limit_ext.record_size_limit' in compared)
+        api.oblige(entry, 'cover:exits-reached', len(exits.full) >= 1 and len(exits.resumed) >= 1)
+        # (the resumed exit runs _sendFinished, which legitimately moves the pending limit into the send limit)
+        for (st, val) in exits.full:
+            v = T(st.env['version'])
+            ext = ext_of(st.ghost['ch1'], ExtensionType.record_size_limit)
+            rsl = attr_t('record_size_limit', ext)
+            srv = attr_t('record_size_limit', T(st.env['settings']))
+            tls13 = CMP['ge'](v, tup(3, 4))
+            send = st.heap.get((me.oid, '_send_record_limit'))
+            peer = st.heap.get((me.oid, '_peer_record_size_limit'))
+            if send is None or peer is None:
+                api.oblige(st, 'C19:full-exit:limit-fields-tracked', False)
+                continue
+            both = z3.And(v_truthy(ext), v_truthy(srv))
+            init_send = z3.Const('initial__send_record_limit', Val)
+            init_peer = z3.Const('initial__peer_record_size_limit', Val)
+            oblige_ordered(api.ex, st, 'C19:full-exit:TLS1.3-send-limit-is-client_limit-1-(content-type-byte)',
+                           z3.Implies(z3.And(both, tls13), T(send) == vmin(C14, SUB(rsl, ONE))))
+            oblige_ordered(api.ex, st, 'C19:full-exit:TLS<=1.2-pending-limit-is-client_limit-and-send-limit-untouched',
+                           z3.Implies(z3.And(both, z3.Not(tls13)),
+                                      z3.And(T(peer) == vmin(C14, rsl), T(send) == init_send)))
+            api.oblige(st, 'C19:full-exit:no-limit-change-unless-both-sides-sent-the-extension',
+                       z3.Implies(z3.Not(both), z3.And(T(send) == init_send, T(peer) == init_peer)))
+    return spec, check
+
+
+_spec3, _check3 = _t3()
+m2s('_serverGetClientHello/record-size-limit', ('C19', 'C08', 'C03'), SGC, _spec3, check=_check3,
+        setup=sgc_setup,
+        doc='server, RFC 8449: the None test on the parsed limit dominates its range comparison; a limit is '
+            'stored only if >= 64 and only if the server enabled the extension; TLS 1.3 send limit = client limit '
+            '- 1, TLS <= 1.2 pending limit = client limit')
+
+
+# ---------------------------------------------------------------------------------------------------
+# T4  peer-controlled dereferences (C08)
+
+def is_ext_value(t):
+    """is the term the result of getExtension (possibly None), or an if-then-else of such / None"""
+    if z3.is_app(t) and t.decl().name() == 'pure_getExtension_2':
+        return True
+    if z3.is_app(t) and t.decl().kind() == z3.Z3_OP_ITE:
+        a, b = t.arg(1), t.arg(2)
+        return (is_ext_value(a) or a.eq(v_none)) and (is_ext_value(b) or b.eq(v_none)) and \
+            (is_ext_value(a) or is_ext_value(b))
+    return False
+
+
+def make_deref_hooks(seen):
+    def on_getattr(ex, v, name, st, fr, node):
+        # C08: an extension looked up in the ClientHello may be absent (None): every attribute access on it must
+        # be dominated by a test (else AttributeError on peer-controlled input)
+        if isinstance(node, ast.Attribute) and isinstance(node.ctx, ast.Load) and is_ext_value(v.t) \
+                and name != 'getExtension':
+            seen.append(src(node))
+            ob(ex, st, 'C08:extension-present-at-attribute-access:%s' % site(
+                fr, node, lambda n: isinstance(n, ast.Attribute) and src(n) == src(node), src(node)),
+                z3.Implies(_ext_objects_truthy(st, v.t), v.t != v_none), kind='m2')
+
+    def on_index(ex, base, idx, st, node):
+        # C08: `X[0]` / `X[-1]` on a peer-supplied list must be dominated by a non-emptiness guard (IndexError)
+        if isinstance(base, VOpaque) and isinstance(idx, VInt) and isinstance(node, ast.Subscript):
+            k = z3.simplify(idx.t)
+            if z3.is_int_value(k) and k.as_long() in (0, -1):
+                seen.append(src(node))
+                goal = z3.Or(v_truthy(base.t), V_LEN(base.t) >= 1)
+                ob(ex, st, 'C08:list-non-empty-at-subscript:%s' % site(
+                    ex.root_fr, node, lambda n: isinstance(n, ast.Subscript) and src(n) == src(node), src(node)),
+                    z3.Implies(_container_lemmas(st, base.t), goal), kind='m2')
+    return on_getattr, on_index
+
+
+def _ext_objects_truthy(st, t):
+    """extension objects are truthy (no __bool__ / __len__ in tlslite/extensions.py): not None => truthy"""
+    fs = []
+    for e in apps(list(st.pc) + [t], lambda e: e.decl().name() == 'pure_getExtension_2'):
+        fs.append(z3.Implies(e != v_none, v_truthy(e)))
+    return z3.And(fs + [z3.BoolVal(True)])
+
+
+def _container_lemmas(st, base):
+    """getExtension returns an element of self.extensions: a found extension means a non-empty list"""
+    fs = []
+    for e in apps(list(st.pc), lambda e: e.decl().name() == 'pure_getExtension_2'):
+        f = e.arg(0)
+        if z3.is_app(f) and f.decl().name() == 'v_attr_getExtension':
+            fs.append(z3.Implies(e != v_none, v_truthy(attr_t('extensions', f.arg(0)))))
+    return z3.And(fs + [z3.BoolVal(True)])
+
+
+REG.note('C08', 'trusted', 'm2_server/dereferences: ClientHello.getExtension(t) returns None or an element of '
+                           'self.extensions (so a found extension implies a non-empty extensions list); extension objects are truthy '
+                           '(no __bool__/__len__ in tlslite/extensions.py); read')
+
+
+def _t4():
+    exits = Exits()
+    seen = []
+    on_getattr, on_index = make_deref_hooks(seen)
+    spec = M2Spec(hooks={'_sendError': h_sendError, 'getFirstMatching': h_getFirstMatching, '_getMsg': h_getMsg_ch,
+                         '_server_select_certificate': h_select_certificate},
+                  pure=SGC_PURE | set(SUITE_GETTERS) | {'filterForVersion'}, on_yield=exits.on_yield)
+    spec.on_getattr = on_getattr
+
+    def on_index2(ex, base, idx, st, node):
+        on_index(ex, base, idx, st, node)
+    spec.on_index = on_index2
+    spec.on_name = make_on_name({'selected_group', 'cl_key_share', 'cookie', 'name'})
+
+    def check(api):
+        from tlslite.errors import TLSLocalAlert
+        entry = api.entry
+        api.oblige(entry, 'cover:dereference-sites-seen', len(set(seen)) >= 10)
+        api.oblige(entry, 'cover:exits-reached', len(exits.full) >= 1 and len(exits.resumed) >= 1)
+        # every way out other than the two yields is a fatal alert (_sendError): C08 "documented exception types"
+        k = 0
+        for o in api.raise_exits():
+            if o.val.cls is NoReturn:
+                continue
+            k += 1
+            nm = getattr(o.val.cls, '__name__', str(o.val.cls))
+            if nm == 'AttributeError' and 'decoder_error' in o.val.origin:
+                # every AlertDescription.<name> used must exist on the live class
+                api.unreachable(o.st, 'C08:AlertDescription-name-exists:%s' % o.val.origin.split()[1])
+            elif nm == 'AssertionError' and 'raise' in o.val.origin:
+                # `raise AssertionError()` for a non-resumable session: SessionCache.__getitem__ returns only
+                # valid() sessions and _ticket_to_session creates resumable ones (assumption below)
+                sess = o.st.env.get('session')
+                api.oblige(o.st, 'C08:no-AssertionError-for-non-resumable-session',
+                           z3.Implies(v_truthy(attr_t('resumable', T(sess))), z3.BoolVal(False)))
+            elif nm == 'AssertionError':
+                # `assert False`: no credentials at all -- excluded by the caller (_handshakeServerAsyncHelper
+                # raises ValueError first) except for settings.virtual_hosts without a default certificate
+                s = o.st.env['settings']
+                pre = z3.Or(v_truthy(T(entry.env['verifierDB'])), v_truthy(T(entry.env['cert_chain'])),
+                            v_truthy(T(entry.env['anon'])), v_truthy(attr_t('pskConfigs', T(s))),
+                            v_truthy(attr_t('virtual_hosts', T(s))))
+                api.oblige(o.st, 'C08:assert-False-unreachable-under-the-callers-credential-check', z3.Not(pre))
+            else:
+                api.unreachable(o.st, 'C08:no-undocumented-exception:%s:%s' % (nm, o.val.origin))
+        api.oblige(entry, 'cover:non-alert-exits-examined', k >= 1)
+    return spec, check
+
+
+_spec4, _check4 = _t4()
+m2s('_serverGetClientHello/peer-controlled-dereferences', ('C08',), SGC, _spec4, check=_check4,
+        setup=sgc_setup,
+        doc='server: every attribute access on a ClientHello extension that may be absent and every [0]/[-1] on '
+            'a peer-supplied list is dominated by a guard; every AlertDescription name exists; no exception other '
+            'than the fatal-alert exit leaves')
+
+
+# ---------------------------------------------------------------------------------------------------
+# T5  resumption by session ID / TLS <= 1.2 ticket (C13)
+
+def h_sendError_line(ex, recv, args, kwargs, st, fr, node):
+    st.ghost['alert_line'] = VInt(z3.IntVal(getattr(node, 'lineno', 0)))
+    return h_sendError(ex, recv, args, kwargs, st, fr, node)
+
+
+def find_try_with_call(fnode, callee):
+    for n in ast.walk(fnode):
+        if isinstance(n, ast.Try):
+            for m in ast.walk(ast.Module(body=n.body, type_ignores=[])):
+                if isinstance(m, ast.Call) and isinstance(m.func, ast.Attribute) and m.func.attr == callee:
+                    return n
+    return None
+
+
+def h_bytearray(ex, recv, args, kwargs, st, fr, node):
+    """bytearray(text, 'utf-8') is a pure function of text (everything else: the builtin model)"""
+    from pyvc.executor import Executor
+    if len(args) == 2 and isinstance(args[1], VStr) and isinstance(args[0], VOpaque):
+        return [Outcome('normal', st, VOpaque(UF('pure_bytearray_2', Val, Val, Val)(args[0].t, T(args[1]))))]
+    try:
+        return Executor.instantiate(ex, bytearray, args, kwargs, st, fr, node)
+    except Unsupported:
+        return [Outcome('normal', st, fresh_opaque('new_bytearray'))]
+
+
+def _t5():
+    exits = Exits()
+    calls = {}
+
+    def h_ticket_to_session(ex, recv, args, kwargs, st, fr, node):
+        r = fresh_opaque('ticket_session')
+        st.events.append(('_ticket_to_session', args, r))
+        st.ghost['ticket_session'] = r
+        calls['_ticket_to_session'] = r
+        ob(ex, st, 'C13:_ticket_to_session-called-with-(settings, the session_ticket extension of this ClientHello)',
+                  z3.And(T(args[0]) == T(st.env['settings']),
+                         T(args[1]) == ext_of(st.ghost['ch1'], ExtensionType.session_ticket)), kind='m2')
+        return [Outcome('normal', st, r)]
+
+    def h_filter(ex, recv, args, kwargs, st, fr, node):
+        r = fresh_opaque('candidate_suites')
+        st.ghost['candidates'] = r
+        return [Outcome('normal', st, r)]
+
+    def h_getFinished(ex, recv, args, kwargs, st, fr, node):
+        st.ghost['finished_secret'] = args[0]
+        st.ghost['finished_checked'] = VBool(z3.BoolVal(True))
+        ex.havoc_call('_getFinished', st)
+        return [Outcome('normal', st, fresh_opaque('getFinished'))]
+
+    def h_sendFinished(ex, recv, args, kwargs, st, fr, node):
+        st.ghost['sent_finished_secret'] = args[0]
+        ex.havoc_call('_sendFinished', st)
+        return [Outcome('normal', st, fresh_opaque('sendFinished'))]
+
+    def h_calcPending(ex, recv, args, kwargs, st, fr, node):
+        st.ghost['pending_args'] = VTuple(list(args[:4]))
+        ex.havoc_call('_calcPendingStates', st)
+        return [Outcome('normal', st, VNone())]
+
+    def h_create(ex, recv, args, kwargs, st, fr, node):
+        if len(args) >= 7 and 'extensions' in kwargs:          # ServerHello.create(version, random, sid, suite, ...)
+            st.ghost['sh_args'] = VTuple(list(args[:4]))
+        return None
+
+    def store_etm(ex, obj, val, st, fr, node):
+        sess = st.env.get('session')
+        if sess is not None:
+            ob(ex, st, 'C13:record-layer-EtM-switched-on-only-from-the-stored-session',
+                      v_truthy(attr_t('encryptThenMAC', T(sess))), kind='m2')
+        st.ghost['etm_on'] = VBool(z3.BoolVal(True))
+
+    spec = M2Spec(hooks={'_sendError': h_sendError_line, 'getFirstMatching': h_getFirstMatching, '_getMsg': h_getMsg_ch,
+                         '_server_select_certificate': h_select_certificate, 'filterForVersion': h_filter,
+                         '_ticket_to_session': h_ticket_to_session, '_getFinished': h_getFinished,
+                         '_sendFinished': h_sendFinished, '_calcPendingStates': h_calcPending, 'create': h_create,
+                         'bytearray': h_bytearray},
+                  pure=SGC_PURE | set(SUITE_GETTERS), on_yield=exits.on_yield,
+                  on_store={'encryptThenMAC': store_etm})
+
+    BA = UF('pure_bytearray_2', Val, Val, Val)
+
+    def facts(st, ch):
+        sess = T(st.env['session'])
+        chs = T(ch)
+        cand = st.ghost.get('candidates')
+        utf8 = T(VStr('utf-8'))
+        d = {
+            'sess': sess,
+            'found': v_truthy(sess),
+            'resumable': v_truthy(attr_t('resumable', sess)),
+            'in_cand': V_IN(attr_t('cipherSuite', sess), T(cand)) if cand is not None else z3.BoolVal(False),
+            'in_client': V_IN(attr_t('cipherSuite', sess), attr_t('cipher_suites', chs)),
+            'etm_sess': v_truthy(attr_t('encryptThenMAC', sess)),
+            'etm_ch': v_truthy(ext_of(ch, ExtensionType.encrypt_then_mac)),
+            'ems_sess': v_truthy(attr_t('extendedMasterSecret', sess)),
+            'ems_ch': v_truthy(ext_of(ch, ExtensionType.extended_master_secret)),
+            'sni_sent': v_truthy(attr_t('server_name', chs)),
+            'sni_same': z3.And(v_truthy(attr_t('serverName', sess)),
+                               attr_t('server_name', chs) == BA(attr_t('serverName', sess), utf8)),
+            'srp_sent': v_truthy(attr_t('srp_username', chs)),
+            'srp_same': z3.And(v_truthy(attr_t('srpUsername', sess)),
+                               attr_t('srp_username', chs) == BA(attr_t('srpUsername', sess), utf8)),
+        }
+        return d
+
+    def check(api):
+        entry = api.entry
+        me = entry.env['self']
+        cache = T(entry.env['sessionCache'])
+        api.oblige(entry, 'cover:resumed-exit-reached', len(exits.resumed) >= 1)
+        api.oblige(entry, 'cover:full-exit-reached', len(exits.full) >= 1)
+        for (st, val) in exits.resumed:
+            ch = st.ghost['ch1']
+            f = facts(st, ch)
+            tick = st.ghost.get('ticket_session')
+            src_ = [f['sess'] == V_GETITEM(cache, attr_t('session_id', T(ch)))]
+            if tick is not None:
+                src_.append(f['sess'] == T(tick))
+            # C13: "resumed only from a session that completed ..., was issued under one of the server's ticket keys"
+            api.oblige(st, 'C13:resumed:session-came-from-sessionCache[id]-or-from-_ticket_to_session', z3.Or(src_))
+            api.oblige(st, 'C13:resumed:session-found-and-resumable', z3.And(f['found'], f['resumable']))
+            api.oblige(st, 'C13:resumed:suite-still-among-the-servers-candidates', f['in_cand'])
+            api.oblige(st, 'C13:resumed:suite-offered-in-this-ClientHello (RFC 5246 7.4.1.2)', f['in_client'])
+            api.oblige(st, 'C13:resumed:server_name-sent-implies-equal-to-the-sessions (RFC 6066 3)',
+                       z3.Implies(f['sni_sent'], f['sni_same']))
+            api.oblige(st, 'C13:resumed:srp_username-sent-implies-equal-to-the-sessions',
+                       z3.Implies(f['srp_sent'], f['srp_same']))
+            api.oblige(st, 'C13:resumed:EtM-session-only-with-EtM-in-ClientHello (RFC 7366)',
+                       z3.Implies(f['etm_sess'], f['etm_ch']))
+            api.oblige(st, 'C13:resumed:EMS-of-session-equals-EMS-of-ClientHello (RFC 7627 5.3)',
+                       f['ems_sess'] == f['ems_ch'])
+            # O-resumed-equals-original
+            sess = f['sess']
+            sh = st.ghost.get('sh_args')
+            pa = st.ghost.get('pending_args')
+            ok = sh is not None and pa is not None and isinstance(sh, VTuple) and isinstance(pa, VTuple)
+            api.oblige(st, 'C13:resumed:ServerHello-and-pending-state-built', bool(ok))
+            if ok:
+                api.oblige(st, 'C13:resumed:ServerHello-carries-the-sessions-suite-and-the-negotiated-version',
+                           z3.And(T(sh.items[3]) == attr_t('cipherSuite', sess), T(sh.items[0]) == T(st.env['version'])))
+                api.oblige(st, 'C13:resumed:keys-from-the-sessions-suite-and-master-secret-and-both-hello-randoms',
+                           z3.And(T(pa.items[0]) == attr_t('cipherSuite', sess),
+                                  T(pa.items[1]) == attr_t('masterSecret', sess),
+                                  T(pa.items[2]) == attr_t('random', T(ch))))
+            fin = st.ghost.get('finished_secret')
+            api.oblige(st, 'C13:resumed:client-Finished-checked-under-the-sessions-master-secret-before-the-exit',
+                       z3.And(truthy(api.ghost(st, 'finished_checked')),
+                              fin is not None and T(fin) == attr_t('masterSecret', sess)))
+            api.oblige(st, 'C13:resumed:EtM-of-the-connection-is-the-sessions',
+                       truthy(api.ghost(st, 'etm_on')) == f['etm_sess'])
+            cur = st.heap.get((me.oid, 'session'))
+            api.oblige(st, 'C13:resumed:connection-session-is-the-stored-session',
+                       cur is not None and T(cur) == sess)
+        # declines never break the connection: every fatal alert raised inside the resumption `try` happens with
+        # a session that was found, is resumable and acceptable -- and for one of the RFC-mandated reasons
+        fnode = api.fr.fs.node
+        tr = find_try_with_call(fnode, '_ticket_to_session')
+        api.oblige(entry, 'C13:declines:resumption-try-has-`except KeyError: pass`',
+                   tr is not None and any(isinstance(h.type, ast.Name) and h.type.id == 'KeyError'
+                                          and len(h.body) == 1 and isinstance(h.body[0], ast.Pass)
+                                          for h in tr.handlers))
+        inside = lambda n: tr is not None and tr.lineno <= getattr(n, 'lineno', 0) <= tr.end_lineno
+        subs = [n for n in ast.walk(fnode) if isinstance(n, ast.Subscript) and isinstance(n.value, ast.Name)
+                and n.value.id == 'sessionCache']
+        api.oblige(entry, 'C13:declines:sessionCache-lookup-(KeyError)-is-inside-that-try',
+                   len(subs) >= 1 and all(inside(n) for n in subs))
+        api.oblige(entry, 'C13:declines:no-KeyError-leaves-the-function', len(api.raise_exits(KeyError)) == 0)
+        n_in = 0
+        for o in api.raise_exits(NoReturn):
+            st = o.st
+            ln = st.ghost.get('alert_line')
+            ln = z3.simplify(ln.t).as_long() if isinstance(ln, VInt) and z3.is_int_value(z3.simplify(ln.t)) else 0
+            if tr is None or not (tr.lineno <= ln <= tr.end_lineno):
+                continue
+            n_in += 1
+            f = facts(st, st.ghost['ch1'])
+            desc = o.val.args[0]
+            api.oblige(st, 'C13:declines:alert-inside-resumption-only-for-a-found-resumable-acceptable-session',
+                       z3.And(f['found'], f['resumable'], f['in_cand']))
+            if is_const_int(desc, AlertDescription.illegal_parameter):
+                api.oblige(st, 'C13:declines:illegal_parameter-only-for-suite-not-offered-or-EtM-dropped',
+                           z3.Or(z3.Not(f['in_client']), z3.And(f['etm_sess'], z3.Not(f['etm_ch']))))
+            elif is_const_int(desc, AlertDescription.handshake_failure):
+                api.oblige(st, 'C13:declines:handshake_failure-only-for-name-mismatch-or-EMS-dropped (RFC 7627 5.3)',
+                           z3.Or(z3.And(f['ems_sess'], z3.Not(f['ems_ch'])),
+                                 z3.And(f['sni_sent'], z3.Not(f['sni_same'])),
+                                 z3.And(f['srp_sent'], z3.Not(f['srp_same']))))
+            else:
+                api.oblige(st, 'C13:declines:no-other-alert-inside-the-resumption-block', False)
+        api.oblige(entry, 'cover:alerts-inside-resumption-block-examined', n_in >= 4)
+        # a session without EMS offered with an EMS ClientHello is not resumed and not aborted: full handshake
+        # (RFC 7627 5.3) -- covered by `EMS-of-session-equals-EMS-of-ClientHello` on the resumed exit together
+        # with `handshake_failure-only-for-...` (no alert for that case)
+    return spec, check
+
+
+_spec5, _check5 = _t5()
+m2s('_serverGetClientHello/resumption', ('C13',), SGC, _spec5, check=_check5, setup=sgc_setup,
+        doc='server, session-ID and TLS<=1.2 ticket resumption: the abbreviated exit is reached only with a found, '
+            'resumable session whose suite is still acceptable and offered, with SNI/SRP/EtM/EMS consistent, keys '
+            'and ServerHello from the stored session; declines fall through to the full handshake')
+REG.note('C13', 'trusted', 'm2_server/resumption: SessionCache.__getitem__ returns only valid() (resumable, '
+                           'unexpired) sessions or raises KeyError (contracts/sessioncache.py, C18); '
+                           'Session.create(...) sets resumable=True (session.py, read)')
+
+
+# ---------------------------------------------------------------------------------------------------
+# T6  HelloRetryRequest (C04; RFC 8446 4.1.2, 4.1.4, 4.2.2, 4.2.8)
+
+def _t6():
+    exits = Exits()
+    seen = {'insert': 0}
+
+    def h_sendMsgs(ex, recv, args, kwargs, st, fr, node):
+        st.ghost['hrr_sent'] = VBool(z3.BoolVal(True))
+        st.ghost['group_at_hrr'] = st.env.get('selected_group')
+        ex.havoc_call('_sendMsgs', st)
+        return [Outcome('normal', st, fresh_opaque('sendMsgs'))]
+
+    def h_insert(ex, recv, args, kwargs, st, fr, node):
+        k = site(fr, node, lambda n: isinstance(n, ast.Call) and isinstance(n.func, ast.Attribute)
+                 and n.func.attr == 'insert', 'insert')
+        if k == 'insert#1' and len(args) == 2:
+            seen['insert'] += 1
+            ext = T(args[1])
+            cookie = st.env.get('cookie')
+            st.ghost['cookie_echoed'] = VBool(z3.And(
+                attr_t('extType', ext) == v_int(z3.IntVal(ExtensionType.cookie)),
+                attr_t('extData', ext) == attr_t('extData', T(cookie))))
+        return None
+
+    def h_create(ex, recv, args, kwargs, st, fr, node):
+        # TLSExtension.create returns self, an object without __bool__/__len__: truthy
+        if src(node).startswith('cookie.create('):
+            r = fresh_opaque('cookie_ext')
+            st.assume(v_truthy(r.t))
+            return [Outcome('normal', st, r)]
+        return None
+
+    spec = M2Spec(hooks={'_sendError': h_sendError, 'getFirstMatching': h_getFirstMatching, '_getMsg': h_getMsg_ch,
+                         '_server_select_certificate': h_select_certificate, '_sendMsgs': h_sendMsgs,
+                         'insert': h_insert, 'create': h_create},
+                  pure=SGC_PURE | set(SUITE_GETTERS) | {'filterForVersion'}, on_yield=exits.on_yield)
+
+    def check(api):
+        entry = api.entry
+        api.oblige(entry, 'cover:full-exit-reached', len(exits.full) >= 1)
+        api.oblige(entry, 'cover:cookie-site-reached', seen['insert'] >= 1)
+        for (st, val) in exits.full:
+            hrr = truthy(api.ghost(st, 'hrr_sent'))
+            ch1 = gv(st.ghost, 'ch1')
+            ch2g = st.ghost.get('ch2')
+            if ch2g is None:
+                api.oblige(st, 'C04:hrr:second-ClientHello-read', False)
+                continue
+            ch2 = T(ch2g)
+            ks2 = GETEXT(attr_t('getExtension', ch2), v_int(z3.IntVal(ExtensionType.key_share)))
+            shares = attr_t('client_shares', ks2)
+            grp = st.ghost.get('group_at_hrr')
+            api.oblige(st, 'C04:hrr:handshake-continues-with-the-second-ClientHello',
+                       z3.Implies(hrr, T(val.items[0]) == ch2))
+            # RFC 8446 4.1.2: the second ClientHello must be the first one except for the listed changes
+            api.oblige(st, 'C04:hrr:second-ClientHello-equals-the-(updated)-first-or-abort',
+                       z3.Implies(hrr, ch1 == ch2))
+            # RFC 8446 4.2.2: the cookie must be echoed
+            api.oblige(st, 'C04:hrr:cookie-echoed-unchanged', z3.Implies(hrr, truthy(api.ghost(st, 'cookie_echoed'))))
+            # RFC 8446 4.2.8: exactly one share, for the group the server asked for
+            api.oblige(st, 'C04:hrr:exactly-one-key-share-in-the-second-ClientHello',
+                       z3.Implies(hrr, z3.And(ks2 != v_none, V_LEN(shares) == 1)))
+            api.oblige(st, 'C04:hrr:key-share-group-is-the-requested-one',
+                       z3.Implies(hrr, grp is not None and attr_t('group', V_GETITEM(shares, v_int(z3.IntVal(0)))) == T(grp)))
+            # no second HelloRetryRequest: the function has a single _sendMsgs site (RFC 8446 4.1.4)
+        n_send = len([n for n in ast.walk(api.fr.fs.node) if isinstance(n, ast.Call)
+                      and isinstance(n.func, ast.Attribute) and n.func.attr == '_sendMsgs'])
+        loops = [n for n in ast.walk(api.fr.fs.node) if isinstance(n, (ast.For, ast.While))
+                 and any(isinstance(m, ast.Call) and isinstance(m.func, ast.Attribute) and m.func.attr == '_sendMsgs'
+                         for b in n.body for m in ast.walk(b))]
+        api.oblige(entry, 'C04:hrr:at-most-one-HelloRetryRequest (single send site, not in a loop)',
+                   n_send == 1 and len(loops) == 0)
+    return spec, check
+
+
+_spec6, _check6 = _t6()
+m2s('_serverGetClientHello/hello-retry', ('C04',), SGC, _spec6, check=_check6, setup=sgc_setup,
+    doc='server, HelloRetryRequest: the handshake continues only with a second ClientHello that equals the first '
+        '(modulo the changes applied to the stored copy), echoes the cookie, and carries exactly one key share for '
+        'the requested group')
+REG.note('C04', 'not_built', 'm2_server/hello-retry: that the edits applied to the stored first ClientHello before '
+                             'the comparison are exactly the changes RFC 8446 4.1.2 allows (key_share, cookie, '
+                             'padding, pre_shared_key, early_data) is not proved -- list mutations are opaque in M2; '
+                             'the synthetic message_hash transcript is not modelled')
+
+
+# ===================================================================================================
+# _handshakeServerAsyncHelper
+# ===================================================================================================
+
+HSH = TC + '_handshakeServerAsyncHelper'
+HSH_PURE = {'getExtension', 'decode', 'len', 'isinstance', '_curveNamesToList', '_groupNamesToList', 'getattr', 'str'}
+
+
+def hsh_hooks(rec):
+    """hooks shared by the helper tasks; `rec` collects python-level facts"""
+    def h_sgc(ex, recv, args, kwargs, st, fr, node):
+        r = fresh_opaque('sgc_result')
+        st.ghost['sgc_result'] = r
+        st.ghost['settings_used'] = args[0]
+        ex.havoc_call('_serverGetClientHello', st)
+        return [Outcome('normal', st, r)]
+
+    def h_sub(name):
+        def h(ex, recv, args, kwargs, st, fr, node):
+            r = fresh_opaque(name + '_result')
+            st.ghost[name + '_result'] = r
+            st.ghost[name + '_args'] = VTuple(list(args))
+            ex.havoc_call(name, st)
+            return [Outcome('normal', st, r)]
+        return h
+
+    def h_handshakeDone(ex, recv, args, kwargs, st, fr, node):
+        rec.setdefault('done', []).append((st.fork(), kwargs.get('resumed')))
+        ex.havoc_call('_handshakeDone', st)
+        return [Outcome('normal', st, VNone())]
+
+    def h_pending_etm(ex, recv, args, kwargs, st, fr, node):
+        r = fresh_opaque('pending_etm')
+        st.ghost['pending_etm'] = r
+        return [Outcome('normal', st, r)]
+
+    return {'_sendError': h_sendError, '_serverGetClientHello': h_sgc,
+            '_serverTLS13Handshake': h_sub('_serverTLS13Handshake'),
+            '_serverCertKeyExchange': h_sub('_serverCertKeyExchange'),
+            '_serverSRPKeyExchange': h_sub('_serverSRPKeyExchange'),
+            '_serverAnonKeyExchange': h_sub('_serverAnonKeyExchange'),
+            '_serverFinished': h_sub('_serverFinished'),
+            '_handshakeDone': h_handshakeDone, '_get_pending_state_etm': h_pending_etm}
+
+
+def sgc_item(st, k):
+    return V_GETITEM(gv(st.ghost, 'sgc_result'), v_int(z3.IntVal(k)))
+
+
+# ---------------------------------------------------------------------------------------------------
+# T7  downgrade sentinel in the full-handshake ServerHello (C04; RFC 8446 4.1.3)
+
+def _t7():
+    from tlslite.constants import TLS_1_2_DOWNGRADE_SENTINEL, TLS_1_1_DOWNGRADE_SENTINEL
+    rec = {'creates': 0, 'stores': 0}
+
+    def on_sub_store(ex, base, tgt, val, st, fr):
+        sl = tgt.slice
+        tail8 = isinstance(sl, ast.Slice) and sl.upper is None and src(sl.lower) == '-8'
+        which = None
+        from pyvc.executor import lift_py
+        for nm, c in (('12', TLS_1_2_DOWNGRADE_SENTINEL), ('11', TLS_1_1_DOWNGRADE_SENTINEL)):
+            try:
+                if z3.is_true(z3.simplify(eq_op(val, lift_py(c)).t)):
+                    which = nm
+            except Exception:
+                pass
+        if which is None:
+            return
+        rec['stores'] += 1
+        ob(ex, st, 'C04:sentinel%s:written-into-the-last-8-bytes' % which, z3.BoolVal(bool(tail8)), kind='m2')
+        st.ghost['sentinel' + which] = VBool(z3.BoolVal(True))
+        st.ghost['sentinel_base'] = base
+
+    def h_create(ex, recv, args, kwargs, st, fr, node):
+        if not (len(args) == 7 and 'extensions' in kwargs):
+            return None
+        rec['creates'] += 1
+        settings = st.ghost['settings_used']
+        maxv = attr_t('maxVersion', T(st.env['settings']))
+        v = sgc_item(st, 1)
+        s12 = truthy(ex.ghost_get(st, 'sentinel12'))
+        s11 = truthy(ex.ghost_get(st, 'sentinel11'))
+        base = st.ghost.get('sentinel_base')
+        # RFC 8446 4.1.3: a TLS 1.3 server negotiating TLS 1.2 MUST set DOWNGRD\\x01; a server supporting TLS 1.2
+        # or 1.3 negotiating TLS 1.1 or below MUST / SHOULD set DOWNGRD\\x00; otherwise the random is random
+        oblige_ordered(ex, st, 'C04:ServerHello:TLS1.2-sentinel-iff-version==(3,3)-and-maxVersion>(3,3)',
+                       s12 == z3.And(v == tup(3, 3), CMP['gt'](maxv, tup(3, 3))))
+        oblige_ordered(ex, st, 'C04:ServerHello:TLS1.1-sentinel-iff-version<(3,3)-and-maxVersion>=(3,3)',
+                       s11 == z3.And(CMP['lt'](v, tup(3, 3)), CMP['ge'](maxv, tup(3, 3))))
+        ob(ex, st, 'C04:ServerHello:the-random-sent-is-the-buffer-the-sentinel-was-written-to',
+                  z3.Implies(z3.Or(s12, s11), base is not None and T(base) == T(args[1])), kind='m2')
+        ob(ex, st, 'C04:ServerHello:maxVersion-is-the-validated-settings-handed-to-_serverGetClientHello',
+                  T(settings) == T(st.env['settings']), kind='m2')
+        return None
+
+    hooks = hsh_hooks(rec)
+    hooks['create'] = h_create
+    spec = M2Spec(hooks=hooks, pure=HSH_PURE)
+    spec.on_subscript_store = on_sub_store
+
+    def check(api):
+        api.oblige(api.entry, 'cover:ServerHello.create-reached', rec['creates'] >= 1)
+        api.oblige(api.entry, 'cover:both-sentinel-stores-reached', rec['stores'] >= 2)
+    return spec, check
+
+
+_spec7, _check7 = _t7()
+m2s('_handshakeServerAsyncHelper/downgrade-sentinel', ('C04',), HSH, _spec7, check=_check7,
+    doc='server full handshake: the downgrade sentinels are written into ServerHello.random under exactly the '
+        'RFC 8446 4.1.3 conditions on (negotiated version, settings.maxVersion)')
+
+
+# ---------------------------------------------------------------------------------------------------
+# T8  what is recorded at completion (C03, C05, C13)
+
+def _t8():
+    rec = {'session_create': 0, 'cache_store': 0, 'etm_store': 0, 'ems_store': 0}
+
+    def h_create(ex, recv, args, kwargs, st, fr, node):
+        if 'encryptThenMAC' not in kwargs or 'tickets' not in kwargs:
+            return None
+        rec['session_create'] += 1
+        me = st.env['self']
+        ch = sgc_item(st, 0)
+        suite = sgc_item(st, 2)
+        ob(ex, st, 'C03:session:cipher-suite-is-the-negotiated-one', T(args[2]) == suite, kind='m2')
+        pe = st.ghost.get('pending_etm')
+        # the ticket / session is written before ChangeCipherSpec: the negotiated EtM lives in the PENDING state
+        ob(ex, st, 'C03:session:encryptThenMAC-is-the-pending-states-value',
+                  pe is not None and T(kwargs['encryptThenMAC']) == T(pe), kind='m2')
+        ems = st.heap.get((me.oid, 'extendedMasterSecret'))
+        ob(ex, st, 'C03:session:extendedMasterSecret-is-the-connections-flag',
+                  ems is not None and T(kwargs['extendedMasterSecret']) == T(ems), kind='m2')
+        ob(ex, st, 'C03:session:appProto-is-the-selected-ALPN-protocol',
+                  T(kwargs['appProto']) == T(st.env['selectedALPN']), kind='m2')
+        # C05: the client chain recorded is what _serverCertKeyExchange verified (or none)
+        cke = st.ghost.get('_serverCertKeyExchange_result')
+        from_cke = z3.BoolVal(False) if cke is None else \
+            z3.And(truthy(VBool(z3.BoolVal(True))), T(args[4]) == V_GETITEM(T(cke), v_int(z3.IntVal(1))))
+        ob(ex, st, 'C05:session:clientCertChain-is-None-or-the-chain-returned-by-_serverCertKeyExchange',
+                  z3.Or(T(args[4]) == v_none, from_cke), kind='m2')
+        # C05/C03: server chain recorded only for certificate suites and then the selected chain
+        ob(ex, st, 'C03:session:serverCertChain-is-None-or-the-selected-chain',
+                  z3.Or(T(args[5]) == v_none, T(args[5]) == T(st.env['cert_chain'])), kind='m2')
+        # RFC 7627 5.4: requireExtendedMasterSecret without the client's extension must have aborted
+        s = T(st.env['settings'])
+        ems_ext = GETEXT(attr_t('getExtension', ch), v_int(z3.IntVal(ExtensionType.extended_master_secret)))
+        ob(ex, st, 'C03:session:requireExtendedMasterSecret-implies-EMS-negotiated',
+                  z3.Implies(z3.And(v_truthy(attr_t('useExtendedMasterSecret', s)),
+                                    v_truthy(attr_t('requireExtendedMasterSecret', s))), v_truthy(ems_ext)), kind='m2')
+        return None
+
+    def store_ems(ex, obj, val, st, fr, node):
+        if not isinstance(obj, VObj):
+            return
+        rec['ems_store'] += 1
+        ch = sgc_item(st, 0)
+        s = T(st.env['settings'])
+        ems_ext = GETEXT(attr_t('getExtension', ch), v_int(z3.IntVal(ExtensionType.extended_master_secret)))
+        ob(ex, st, 'C03:extendedMasterSecret-set-only-if-enabled-and-offered (RFC 7627)',
+                  z3.And(v_truthy(attr_t('useExtendedMasterSecret', s)), v_truthy(ems_ext)), kind='m2')
+
+    def store_etm(ex, obj, val, st, fr, node):
+        rec['etm_store'] += 1
+        ch = sgc_item(st, 0)
+        suite = sgc_item(st, 2)
+        s = T(st.env['settings'])
+        etm_ext = GETEXT(attr_t('getExtension', ch), v_int(z3.IntVal(ExtensionType.encrypt_then_mac)))
+        # RFC 7366 3: only for block (CBC) suites; VPy containers give concrete membership disjunctions
+        in_stream = ex.contains(VPy(CipherSuite.streamSuites), VOpaque(suite), st).t
+        in_aead = ex.contains(VPy(CipherSuite.aeadSuites), VOpaque(suite), st).t
+        ob(ex, st, 'C03:encryptThenMAC-set-only-if-enabled-offered-and-CBC-suite (RFC 7366)',
+                  z3.And(v_truthy(attr_t('useEncryptThenMAC', s)), v_truthy(etm_ext),
+                         z3.Not(in_stream), z3.Not(in_aead)), kind='m2')
+
+    def on_sub_store(ex, base, tgt, val, st, fr):
+        if src(tgt.value) != 'sessionCache':
+            return
+        rec['cache_store'] += 1
+        me = st.env['self']
+        cur = st.heap.get((me.oid, 'session'))
+        # C13: only a session whose handshake completed (both Finished exchanged) may become resumable by ID
+        ob(ex, st, 'C13:sessionCache-store-only-after-_serverFinished-returned',
+                  z3.BoolVal('_serverFinished_result' in st.ghost), kind='m2')
+        ob(ex, st, 'C13:sessionCache-stores-the-connections-session-under-the-ServerHello-session-id',
+                  z3.And(cur is not None and T(val) == T(cur), T(st.env['sessionID']) ==
+                         T(ex.eval(tgt.slice, st.fork(), fr)[0].val)), kind='m2')
+
+    hooks = hsh_hooks(rec)
+    hooks['create'] = h_create
+    spec = M2Spec(hooks=hooks, pure=HSH_PURE, on_store={'extendedMasterSecret': store_ems,
+                                                      'encryptThenMAC': store_etm},
+                  stable_fields={'extendedMasterSecret', 'session'})
+    spec.on_subscript_store = on_sub_store
+
+    def check(api):
+        entry = api.entry
+        for k in rec:
+            if k != 'done':
+                api.oblige(entry, 'cover:site-reached:%s' % k, rec[k] >= 1)
+        done = rec.get('done', [])
+        api.oblige(entry, 'cover:three-_handshakeDone-sites', len(done) >= 3)
+        for (st, resumed) in done:
+            r = z3.simplify(truthy(resumed)) if resumed is not None else None
+            if r is not None and z3.is_true(r):
+                api.oblige(st, 'C13:handshakeDone(resumed=True)-only-after-_serverGetClientHello-signalled-resumption',
+                           gv(st.ghost, 'sgc_result') == v_none)
+            else:
+                fin = '_serverFinished_result' in st.ghost
+                t13 = st.ghost.get('_serverTLS13Handshake_result')
+                api.oblige(st, 'C04:handshakeDone(resumed=False)-only-after-_serverFinished-or-TLS1.3-"finished"',
+                           z3.Or(z3.BoolVal(fin), t13 is not None and T(t13) == T(VStr('finished'))))
+    return spec, check
+
+
+_spec8, _check8 = _t8()
+m2s('_handshakeServerAsyncHelper/completion-record', ('C03', 'C05', 'C13', 'C04'), HSH, _spec8, check=_check8,
+    doc='server full handshake (<= TLS 1.2): session fields are the negotiated values (suite, EtM of the pending '
+        'state, EMS flag, ALPN, chains); EtM/EMS switched on only if enabled and offered; the session is cached and '
+        'the handshake reported done only after _serverFinished returned')
+REG.note('C03', 'trusted', 'm2_server/helper: fields extendedMasterSecret and session of the connection are not '
+                           'assigned by the key-exchange sub-coroutines between their stores in the helper and '
+                           'Session.create (direct store sites: _handshakeStart, helper, _serverTLS13Handshake; read)')
+
+
+# ===================================================================================================
+# _server_select_certificate (C03)
+# ===================================================================================================
+
+def _t9():
+    subsets = []        # (result term, input term): every element of result is an element of input
+    rec = {'append': 0, 'returns': 0}
+
+    def h_filter(ex, recv, args, kwargs, st, fr, node):
+        """CipherSuite.filter_for_certificate / filter_for_prfs return a subsequence of their first argument
+        (contracts/suites.py O-filter-order)"""
+        r = fresh_opaque('filtered')
+        subsets.append((r.t, T(args[0])))
+        st.events.append((node.func.attr, args, r))
+        return [Outcome('normal', st, r)]
+
+    def lemma(c):
+        return z3.And([z3.Implies(V_IN(c, a), V_IN(c, b)) for (a, b) in subsets] + [z3.BoolVal(True)])
+
+    def goal_for(st, c, entry):
+        return z3.Implies(lemma(c), z3.And(V_IN(c, T(entry.env['cipher_suites'])),
+                                           V_IN(c, attr_t('cipher_suites', T(entry.env['client_hello'])))))
+
+    holder = {}
+
+    def h_append(ex, recv, args, kwargs, st, fr, node):
+        if not (isinstance(node.func.value, ast.Name) and node.func.value.id == 'possible_certs'):
+            return None
+        rec['append'] += 1
+        tup_ = args[0]
+        ok = isinstance(tup_, VTuple) and len(tup_.items) == 4
+        ob(ex, st, 'C03:fallback-candidate-is-a-(cipher, scheme, cert, key)-tuple', z3.BoolVal(ok), kind='m2')
+        if ok:
+            ob(ex, st, 'C03:fallback-candidate-cipher-in-candidates-and-in-ClientHello',
+                      goal_for(st, T(tup_.items[0]), holder['entry']), kind='m2')
+            ob(ex, st, 'C03:fallback-candidate-cert-and-key-are-the-pair-being-examined',
+                      z3.And(T(tup_.items[2]) == T(st.env['cert']), T(tup_.items[3]) == T(st.env['key'])), kind='m2')
+        return [Outcome('normal', st, VNone())]
+
+    def setup(ex, st, fr):
+        holder['entry'] = st.fork()
+
+    spec = M2Spec(hooks={'filter_for_certificate': h_filter, 'filter_for_prfs': h_filter, 'append': h_append},
+                  pure={'getExtension', 'getEndEntityPublicKey', 'toRepr', 'len', 'items', 'any'})
+    spec.refine_loops = True
+    spec.loop_elem_facts = True
+
+    def check(api):
+        entry = api.entry
+        rets = [o for o in api.outs if o.kind == 'return']
+        direct = [o for o in rets if isinstance(o.val, VTuple)]
+        api.oblige(entry, 'cover:direct-return-and-fallback-return-reached', len(direct) >= 1 and len(rets) > len(direct))
+        api.oblige(entry, 'cover:fallback-append-site-reached', rec['append'] >= 1)
+        for o in direct:
+            api.oblige(o.st, 'C03:returned-cipher-in-candidates-and-in-ClientHello',
+                       goal_for(o.st, T(o.val.items[0]), entry))
+            api.oblige(o.st, 'C03:returned-cert-and-key-are-the-examined-pair',
+                       z3.And(T(o.val.items[2]) == T(o.st.env['cert']), T(o.val.items[3]) == T(o.st.env['key'])))
+        # the fallback `return possible_certs[0]`: possible_certs is only ever initialised empty, appended to at the
+        # site checked above, tested and read (so its first element satisfies the append-site obligations)
+        uses = [n for n in ast.walk(api.fr.fs.node) if isinstance(n, ast.Name) and n.id == 'possible_certs']
+        stores = [n for n in uses if isinstance(n.ctx, ast.Store)]
+        calls = [n for n in ast.walk(api.fr.fs.node) if isinstance(n, ast.Call) and isinstance(n.func, ast.Attribute)
+                 and isinstance(n.func.value, ast.Name) and n.func.value.id == 'possible_certs']
+        api.oblige(entry, 'C03:fallback-list-is-only-initialised-empty-and-appended-to-at-one-site',
+                   len(stores) == 1 and len(calls) == 1 and calls[0].func.attr == 'append')
+        for o in api.raise_exits():
+            nm = getattr(o.val.cls, '__name__', '')
+            api.oblige(o.st, 'C03:only-the-three-declared-exceptions-leave:%s' % nm,
+                       nm in ('TLSHandshakeFailure', 'TLSInsufficientSecurity', 'TLSIllegalParameterException', 'IndexError'))
+    return spec, check, setup
+
+
+_spec9, _check9, _setup9 = _t9()
+m2s('_server_select_certificate/selection', ('C03',), TC + '_server_select_certificate', _spec9, check=_check9,
+    setup=_setup9,
+    doc='the cipher suite returned (directly, or as a fallback candidate) is an element of the candidate list '
+        'handed in and of client_hello.cipher_suites; certificate and key are the examined pair')
+REG.note('C03', 'trusted', 'm2_server/_server_select_certificate: filter_for_certificate / filter_for_prfs return '
+                           'subsequences of their input (contracts/suites.py); iterating a list yields its elements')
+REG.note('C03', 'not_built', 'm2_server/_server_select_certificate: that `possible_certs` is non-empty at '
+                             '`return possible_certs[0]` (needs the last_cert invariant); the re-raise inside '
+                             '`except Exception` is abstracted to the three declared exception classes')
+
+
+# ===================================================================================================
+# tickets: _ticket_to_session, _tryDecrypt, _serverSendTickets (C13, C03)
+# ===================================================================================================
+
+ADD = UF('v_binop_Add', Val, Val, Val)
+CIPHER_MAKERS = ('createAESGCM', 'createAESCCM', 'createAESCCM_8', 'createCHACHA20')
+
+
+def _t10():
+    rec = {'create': 0}
+
+    def h_tryDecrypt(ex, recv, args, kwargs, st, fr, node):
+        r = fresh_opaque('tryDecrypt')
+        st.ghost['td_result'] = r
+        st.ghost['td_args'] = VTuple([args[0], kwargs.get('ticket', VNone())])
+        return [Outcome('normal', st, r)]
+
+    def h_time(ex, recv, args, kwargs, st, fr, node):
+        r = fresh_opaque('now')
+        st.ghost['now'] = r
+        return [Outcome('normal', st, r)]
+
+    def h_Session(ex, recv, args, kwargs, st, fr, node):
+        r = fresh_opaque('new_Session')
+        st.ghost['new_session'] = r
+        return [Outcome('normal', st, r)]
+
+    def h_create(ex, recv, args, kwargs, st, fr, node):
+        rec['create'] += 1
+        tk = V_GETITEM(gv(st.ghost, 'td_result'), v_int(z3.IntVal(1)))
+        # C13: "the resumed connection has the original's cipher suite, EMS and EtM properties, server name and
+        # authenticated client identity": the session is rebuilt from the decrypted ticket's fields only
+        ob(ex, st, 'C13:session-from-ticket:master-secret-suite-and-client-chain-are-the-tickets',
+                  z3.And(T(args[0]) == attr_t('master_secret', tk), T(args[2]) == attr_t('cipher_suite', tk),
+                         T(args[4]) == attr_t('client_cert_chain', tk)), kind='m2')
+        ob(ex, st, 'C13:session-from-ticket:EtM-and-EMS-are-the-tickets',
+                  z3.And(T(kwargs['encryptThenMAC']) == attr_t('encrypt_then_mac', tk),
+                         T(kwargs['extendedMasterSecret']) == attr_t('extended_master_secret', tk)), kind='m2')
+        dec = UF('pure_decode_2', Val, Val, Val)
+        sn = attr_t('server_name', tk)
+        ob(ex, st, 'C13:session-from-ticket:server-name-is-the-tickets',
+                  T(kwargs['serverName']) == z3.If(v_truthy(sn), dec(attr_t('decode', sn), T(VStr('utf-8'))),
+                                                  T(VStr(''))), kind='m2')
+        ob(ex, st, 'C13:session-from-ticket:no-server-chain-no-SRP-name-no-session-id',
+                  z3.And(T(args[5]) == v_none, eq_op(args[3], VStr('')).t), kind='m2')
+        return [Outcome('normal', st, VNone())]
+
+    spec = M2Spec(hooks={'_tryDecrypt': h_tryDecrypt, 'time': h_time, 'Session': h_Session, 'create': h_create},
+                  pure={'decode'})
+
+    def check(api):
+        entry = api.entry
+        rets = [o for o in api.outs if o.kind == 'return']
+        some = [o for o in rets if not isinstance(o.val, VNone)]
+        api.oblige(entry, 'cover:session-return-and-None-returns', len(some) >= 1 and len(rets) - len(some) >= 3)
+        api.oblige(entry, 'cover:Session.create-reached', rec['create'] >= 1)
+        for o in some:
+            st = o.st
+            td = gv(st.ghost, 'td_result')
+            tk = V_GETITEM(td, v_int(z3.IntVal(1)))
+            ta = st.ghost['td_args']
+            s = T(entry.env['settings'])
+            api.oblige(st, 'C13:ticket-session:returned-object-is-the-session-just-created',
+                       T(o.val) == gv(st.ghost, 'new_session'))
+            api.oblige(st, 'C13:ticket-session:only-if-_tryDecrypt(settings, ticket=ext.ticket)-accepted-the-ticket',
+                       z3.And(v_truthy(tk), T(ta.items[0]) == s,
+                              T(ta.items[1]) == attr_t('ticket', T(entry.env['ticket_ext']))))
+            now = st.ghost.get('now')
+            api.oblige(st, 'C13:ticket-session:only-if-not-expired (creation_time + ticketLifetime >= now)',
+                       now is not None and z3.Not(CMP['lt'](ADD(attr_t('creation_time', tk), attr_t('ticketLifetime', s)),
+                                                            T(now))))
+    return spec, check
+
+
+_spec10, _check10 = _t10()
+m2s('_ticket_to_session/guards', ('C13',), TC + '_ticket_to_session', _spec10, check=_check10,
+    doc='a session is rebuilt from a TLS<=1.2 ticket only if _tryDecrypt accepted it and it has not expired; '
+        'its suite, secrets, EtM, EMS, server name and client chain are the ticket payload fields')
+
+
+def _t11():
+    rec = {}
+
+    def h_derive(ex, recv, args, kwargs, st, fr, node):
+        r = fresh_opaque('key_iv')
+        st.ghost['kiv'] = r
+        st.ghost['kiv_args'] = VTuple(list(args))
+        return [Outcome('normal', st, r)]
+
+    def h_maker(ex, recv, args, kwargs, st, fr, node):
+        r = fresh_opaque('aead')
+        st.ghost['aead'] = r
+        st.ghost['aead_key'] = args[0]
+        return [Outcome('normal', st, r)]
+
+    def h_open(ex, recv, args, kwargs, st, fr, node):
+        r = fresh_opaque('opened')
+        st.ghost['opened'] = r
+        st.ghost['open_args'] = VTuple([recv] + list(args))
+        return [Outcome('normal', st, r)]
+
+    def h_Parser(ex, recv, args, kwargs, st, fr, node):
+        r = fresh_opaque('parser')
+        st.ghost['parser'] = r
+        st.ghost['parser_src'] = args[0]
+        return [Outcome('normal', st, r)]
+
+    def h_parse(ex, recv, args, kwargs, st, fr, node):
+        r = fresh_opaque('payload')
+        st.ghost['payload'] = r
+        st.ghost['parse_arg'] = args[0]
+        return [Outcome('normal', st, r), Outcome('raise', st.fork(), VExc(ValueError, [], 'SessionTicketPayload.parse'))]
+
+    hooks = {'_derive_key_iv': h_derive, 'open': h_open, 'Parser': h_Parser, 'parse': h_parse}
+    for m in CIPHER_MAKERS:
+        hooks[m] = h_maker
+    spec = M2Spec(hooks=hooks, pure={'len', 'calc_res_binder_psk'}, stable_fields={'version'})
+    spec.refine_loops = True
+    spec.loop_elem_facts = True
+    SLICE = UF('v_slice', Val, Val, Val, Val)
+
+    def check(api):
+        entry = api.entry
+        s = T(entry.env['settings'])
+        rets = [o for o in api.outs if o.kind == 'return']
+        acc = [o for o in rets if isinstance(o.val, VTuple) and not isinstance(o.val.items[1], VNone)]
+        api.oblige(entry, 'cover:accepting-returns (TLS<=1.2 and TLS 1.3) and declining returns',
+                   len(acc) >= 2 and len(rets) - len(acc) >= 2)
+        for o in acc:
+            st = o.st
+            tk = T(o.val.items[1])
+            g = st.ghost
+            need = ('kiv', 'kiv_args', 'aead', 'aead_key', 'opened', 'open_args', 'parser', 'parser_src', 'payload',
+                    'parse_arg')
+            if any(k not in g for k in need):
+                api.oblige(st, 'C13:_tryDecrypt:accept-path-ran-derive/open/parse', False)
+                continue
+            kiv = gv(g, 'kiv')
+            ka = g['kiv_args']
+            oa = g['open_args']
+            user_key = T(ka.items[1])
+            # C13: "issued under one of the server's current ticket keys": AEAD open accepted it under a key derived
+            # from an element of settings.ticketKeys and the nonce that came with the ticket
+            api.oblige(st, 'C13:_tryDecrypt:returned-ticket-is-the-parsed-plaintext-of-the-AEAD-open',
+                       z3.And(tk == gv(g, 'payload'), gv(g, 'parse_arg') == gv(g, 'parser'),
+                              gv(g, 'parser_src') == gv(g, 'opened'), v_truthy(gv(g, 'opened'))))
+            api.oblige(st, 'C13:_tryDecrypt:opened-with-the-cipher-keyed-by-_derive_key_iv(nonce, user_key, settings)',
+                       z3.And(T(oa.items[0]) == gv(g, 'aead'), gv(g, 'aead_key') == V_GETITEM(kiv, v_int(z3.IntVal(0))),
+                              T(oa.items[1]) == V_GETITEM(kiv, v_int(z3.IntVal(1))), T(ka.items[2]) == s))
+            api.oblige(st, 'C13:_tryDecrypt:user_key-is-one-of-settings.ticketKeys',
+                       V_IN(user_key, attr_t('ticketKeys', s)))
+            # nonce and ciphertext are the two parts of the value the peer sent
+            src_ = z3.If(CMP['lt'](z3.Const('conn_version', Val), tup(3, 4)), T(entry.env['ticket']),
+                         attr_t('identity', T(entry.env['identity'])))
+            n32 = v_int(z3.IntVal(32))
+            oblige_ordered(api.ex, st, 'C13:_tryDecrypt:nonce-and-ciphertext-are-the-first-32-bytes-and-the-rest-of-the-peers-value',
+                           z3.And(T(ka.items[0]) == SLICE(src_, v_none, n32), T(oa.items[2]) == SLICE(src_, n32, v_none)))
+        for o in rets:
+            if o not in acc:
+                ok = isinstance(o.val, VTuple) and all(isinstance(x, VNone) for x in o.val.items)
+                api.oblige(o.st, 'C13:_tryDecrypt:decline-returns-(None, None)-and-raises-nothing', bool(ok))
+        for o in api.raise_exits():
+            nm = getattr(o.val.cls, '__name__', '')
+            # `assert ticket` / `assert identity` are caller preconditions; `assert ticketCipher == chacha` is
+            # HandshakeSettings.validate's domain (C19)
+            api.oblige(o.st, 'C13:_tryDecrypt:no-exception-but-the-three-precondition-asserts:%s' % o.val.origin,
+                       nm == 'AssertionError')
+    return spec, check
+
+
+def api_version(st):
+    me = st.env['self']
+    return st.heap[(me.oid, 'version')]
+
+
+def t11_setup(ex, st, fr):
+    ex.spec.field_like_properties = FIELD_LIKE
+    me = st.env['self']
+    st.heap[(me.oid, 'version')] = VOpaque(z3.Const('conn_version', Val))
+
+
+_spec11, _check11 = _t11()
+m2s('_tryDecrypt/guards', ('C13',), TC + '_tryDecrypt', _spec11, check=_check11, setup=t11_setup,
+    opts={'pure_slice': True},
+    doc='a ticket payload is returned only after an AEAD open under a key derived from one of settings.ticketKeys '
+        'and the nonce sent with the ticket returned a non-empty plaintext that parsed; every decline is (None, None)')
+REG.note('C13', 'trusted', 'm2_server/_tryDecrypt: key derivation, AEAD construction/open and payload parsing do '
+                           'not assign the connection version; cipher.open returns None (falsy) unless the AEAD tag verifies '
+                           '(contracts/ciphers.py AEAD receive contracts, C09); SessionTicketPayload.parse raises '
+                           'only ValueError on malformed plaintext (C15)')
+
+
+def _t12():
+    rec = {'payload': 0, 'seal': 0, 'nst': 0}
+
+    def h_pending_etm(ex, recv, args, kwargs, st, fr, node):
+        r = fresh_opaque('pending_etm')
+        st.ghost['pending_etm'] = r
+        return [Outcome('normal', st, r)]
+
+    def h_derive(ex, recv, args, kwargs, st, fr, node):
+        r = fresh_opaque('key_iv')
+        st.ghost['kiv'] = r
+        st.ghost['kiv_args'] = VTuple(list(args))
+        return [Outcome('normal', st, r)]
+
+    def h_maker(ex, recv, args, kwargs, st, fr, node):
+        r = fresh_opaque('aead')
+        st.ghost['aead'] = r
+        st.ghost['aead_key'] = args[0]
+        return [Outcome('normal', st, r)]
+
+    def h_write(ex, recv, args, kwargs, st, fr, node):
+        r = fresh_opaque('payload_bytes')
+        st.ghost['written'] = r
+        st.ghost['written_of'] = recv
+        return [Outcome('normal', st, r)]
+
+    def h_seal(ex, recv, args, kwargs, st, fr, node):
+        rec['seal'] += 1
+        g = st.ghost
+        s = T(st.env['settings'])
+        kiv = gv(g, 'kiv')
+        ka = g.get('kiv_args')
+        if not isinstance(ka, VTuple) or 'aead' not in g or 'written' not in g:
+            ob(ex, st, 'C13:ticket-sealed-under-a-key-derived-from-settings.ticketKeys[0]-and-the-nonce', False)
+            return [Outcome('normal', st, fresh_opaque('sealed'))]
+        # C13: tickets are issued under the server's CURRENT (first) ticket key with a fresh nonce
+        ob(ex, st, 'C13:ticket-sealed-under-a-key-derived-from-settings.ticketKeys[0]-and-the-nonce',
+                  z3.And(T(recv) == gv(g, 'aead'), gv(g, 'aead_key') == V_GETITEM(kiv, v_int(z3.IntVal(0))),
+                         T(args[0]) == V_GETITEM(kiv, v_int(z3.IntVal(1))),
+                         T(ka.items[1]) == V_GETITEM(attr_t('ticketKeys', s), v_int(z3.IntVal(0))),
+                         T(ka.items[0]) == T(st.env['nonce']), T(ka.items[2]) == s), kind='m2')
+        ob(ex, st, 'C13:sealed-plaintext-is-the-serialised-payload-just-created',
+                  z3.And(T(args[1]) == gv(g, 'written'), gv(g, 'written_of') == T(st.env['ticket'])), kind='m2')
+        r = fresh_opaque('sealed')
+        st.ghost['sealed'] = r
+        return [Outcome('normal', st, r)]
+
+    def h_create(ex, recv, args, kwargs, st, fr, node):
+        me = st.env['self']
+        if 'encrypt_then_mac' in kwargs:
+            rec['payload'] += 1
+            sess = T(st.heap[(me.oid, 'session')])
+            ver = T(st.heap[(me.oid, 'version')])
+            pe = st.ghost.get('pending_etm')
+            # in TLS <= 1.2 the ticket goes out before ChangeCipherSpec: the negotiated EtM is in the PENDING state
+            ob(ex, st, 'C03:ticket-payload:encrypt_then_mac-is-the-PENDING-states-value',
+                      pe is not None and T(kwargs['encrypt_then_mac']) == T(pe), kind='m2')
+            ob(ex, st, 'C13:ticket-payload:suite-and-client-chain-are-the-sessions',
+                      z3.And(T(args[2]) == attr_t('cipherSuite', sess), T(args[1]) == ver,
+                             T(kwargs['client_cert_chain']) == attr_t('clientCertChain', sess)), kind='m2')
+            oblige_ordered(ex, st, 'C13:ticket-payload:secret-is-master-secret-(<=1.2)-or-resumption-master-secret-(1.3)',
+                           T(args[0]) == z3.If(CMP['lt'](ver, tup(3, 4)), attr_t('masterSecret', sess),
+                                               attr_t('resumptionMasterSecret', sess)))
+            ems = st.heap.get((me.oid, 'extendedMasterSecret'))
+            ob(ex, st, 'C13:ticket-payload:extended_master_secret-is-the-connections-or-the-sessions-flag',
+                      z3.Or(ems is not None and T(kwargs['extended_master_secret']) == T(ems),
+                            T(kwargs['extended_master_secret']) == attr_t('extendedMasterSecret', sess)), kind='m2')
+            sn = attr_t('serverName', sess)
+            enc = UF('pure_encode_2', Val, Val, Val)
+            v = kwargs['server_name']
+            ob(ex, st, 'C13:ticket-payload:server_name-is-the-sessions (or empty)',
+                      z3.Implies(v_truthy(sn), T(v) == enc(attr_t('encode', sn), T(VStr('utf-8')))), kind='m2')
+            return [Outcome('normal', st, fresh_opaque('payload_obj'))]
+        if src(node.func.value) == 'new_ticket':
+            rec['nst'] += 1
+            sealed = st.ghost.get('sealed')
+            blob = args[1] if len(args) == 2 else args[3]
+            ob(ex, st, 'C13:NewSessionTicket-carries-nonce+sealed-payload-and-settings.ticketLifetime',
+                      z3.And(sealed is not None and T(blob) == ADD(T(st.env['nonce']), T(sealed)),
+                             T(args[0]) == attr_t('ticketLifetime', T(st.env['settings']))), kind='m2')
+        return None
+
+    hooks = {'_get_pending_state_etm': h_pending_etm, '_derive_key_iv': h_derive, 'write': h_write, 'seal': h_seal,
+             'create': h_create}
+    for m in CIPHER_MAKERS:
+        hooks[m] = h_maker
+    spec = M2Spec(hooks=hooks, pure={'encode', 'len', 'int', 'bool'},
+                  stable_fields={'session', 'version', 'extendedMasterSecret'})
+
+    def setup(ex, st, fr):
+        ex.spec.field_like_properties = FIELD_LIKE
+        me = st.env['self']
+        for f in ('session', 'version', 'extendedMasterSecret'):
+            st.heap[(me.oid, f)] = VOpaque(z3.Const('conn_' + f, Val))
+
+    def check(api):
+        entry = api.entry
+        api.oblige(entry, 'cover:payload-seal-and-both-NewSessionTicket-sites-reached',
+                   rec['payload'] >= 1 and rec['seal'] >= 1 and rec['nst'] >= 2)
+        # no ticket without keys
+        for o in api.normal_exits():
+            pass
+    return spec, check, setup
+
+
+_spec12, _check12, _setup12 = _t12()
+m2s('_serverSendTickets/payload', ('C03', 'C13'), TC + '_serverSendTickets', _spec12, check=_check12, setup=_setup12,
+    doc='the ticket payload records the PENDING state EtM, the session suite / secret / client chain / server name '
+        'and is sealed under a key derived from settings.ticketKeys[0] and a fresh nonce')
+REG.note('C13', 'trusted', 'm2_server/_serverSendTickets: the callees inside the ticket loop (payload/AEAD '
+                           'construction, _queue_message) do not assign self.session / version / '
+                           'extendedMasterSecret (read)')
+
+
+# ===================================================================================================
+# _serverTLS13Handshake (C05, C13, C08)
+# ===================================================================================================
+
+S13 = TC + '_serverTLS13Handshake'
+_CLOCK = [0]
+
+
+def tint(v):
+    """integer term of a ghost time stamp (a merge with the default ghost value embeds it into Val)"""
+    if v is None:
+        return z3.Int(fresh_name_('missing_time'))
+    return v.t if isinstance(v, VInt) else val_int(T(v))
+
+
+def tick():
+    _CLOCK[0] += 1
+    return VInt(z3.IntVal(_CLOCK[0]))
+
+
+def _t13():
+    from tlslite.errors import TLSIllegalParameterException
+    rec = {'binder': 0, 'session': 0, 'cv': 0, 'psk_ext': 0}
+
+    def h_getPRF(ex, recv, args, kwargs, st, fr, node):
+        r = fresh_opaque('prf_params')
+        st.ghost['prf'] = r
+        return [Outcome('normal', st, r)]
+
+    def h_tryDecrypt(ex, recv, args, kwargs, st, fr, node):
+        r = fresh_opaque('tryDecrypt')
+        st.ghost['td_result'] = r
+        st.ghost['td_ident'] = args[1]
+        return [Outcome('normal', st, r)]
+
+    def h_verify_binder(ex, recv, args, kwargs, st, fr, node):
+        rec['binder'] += 1
+        me = st.env['self']
+        i, ident, tk = st.env['i'], st.env['ident'], st.env['ticket']
+        psks = st.env['psks']
+        # C05 "a correct PSK binder": RFC 8446 4.2.11.2 -- the binder at position i is checked with the key that
+        # belongs to the identity at position i, over the transcript up to (not including) the binders
+        ob(ex, st, 'C05:binder:checked-on-this-ClientHello-with-the-pre-ClientHello-transcript',
+                  z3.And(T(args[0]) == T(st.env['clientHello']),
+                         T(args[1]) == T(st.heap.get((me.oid, '_pre_client_hello_handshake_hash'), VNone()))), kind='m2')
+        ob(ex, st, 'C05:binder:position-is-the-index-of-the-identity-the-key-was-looked-up-for',
+                  z3.And(T(args[2]) == T(i), T(ident) == V_GETITEM(attr_t('identities', T(psks)), T(i))), kind='m2')
+        match = st.env['match']
+        m0 = V_GETITEM(T(match), v_int(z3.IntVal(0))) if isinstance(match, VOpaque) else T(match.items[0])
+        ob(ex, st, 'C05:binder:key-is-the-secret-of-the-matched-identity',
+                  T(args[3]) == V_GETITEM(m0, v_int(z3.IntVal(1))), kind='m2')
+        td = st.ghost.get('td_result')
+        from_ticket = z3.BoolVal(False) if td is None else z3.And(
+            m0 == V_GETITEM(T(td), v_int(z3.IntVal(0))), gv(st.ghost, 'td_ident') == T(ident),
+            T(tk) == V_GETITEM(T(td), v_int(z3.IntVal(1))))
+        goal = z3.Or(from_ticket, truthy(args[5]))
+        ob(ex, st, 'C05:binder:ticket-PSK-comes-from-_tryDecrypt(settings, this identity) or an external PSK',
+                  z3.Implies(z3.And(list_facts(list(st.pc) + [goal]) + [z3.BoolVal(True)]), goal), kind='m2')
+        prf_name = V_GETITEM(gv(st.ghost, 'prf'), v_int(z3.IntVal(0)))
+        ob(ex, st, 'C13:binder:PSK-hash-equals-the-PRF-hash-of-the-selected-suite (RFC 8446 4.2.11)',
+                  z3.And(T(args[4]) == prf_name), kind='m2')
+        ob(ex, st, 'C13:binder:ticket-was-issued-for-this-protocol-version',
+                  z3.Implies(v_truthy(T(tk)), T(st.heap[(me.oid, 'version')]) == attr_t('protocol_version', T(tk))),
+                  kind='m2')
+        ok = st.fork()
+        ok.ghost['binder_ok'] = VBool(z3.BoolVal(True))
+        ok.ghost['binder_pos'] = args[2]
+        ok.ghost['binder_psk'] = args[3]
+        ok.ghost['binder_ticket'] = tk
+        return [Outcome('normal', ok, VNone()),
+                Outcome('raise', st, VExc(TLSIllegalParameterException, [], 'verify_binder: binder does not verify'))]
+
+    def h_getMsg(ex, recv, args, kwargs, st, fr, node):
+        r = fresh_opaque('msg')
+        ex.havoc_call('_getMsg', st)
+        ht = args[1] if len(args) > 1 else None
+        key = 'msg_other'
+        if isinstance(ht, VInt):
+            k = z3.simplify(ht.t)
+            if z3.is_int_value(k) and k.as_long() == HandshakeType.certificate_verify:
+                key = 'msg_cv'
+            elif z3.is_int_value(k) and k.as_long() == HandshakeType.finished:
+                key = 'msg_finished'
+        elif len(args) > 2:
+            key = 'msg_cert'
+        st.ghost[key] = r
+        st.ghost['t_' + key] = tick()
+        return [Outcome('normal', st, r)]
+
+    def h_copy(ex, recv, args, kwargs, st, fr, node):
+        r = fresh_opaque('hh_copy')
+        st.ghost['last_copy'] = r
+        st.ghost['t_last_copy'] = tick()
+        st.ghost['last_copy_of_transcript'] = VBool(z3.BoolVal(src(node.func.value) == 'self._handshake_hash'))
+        return [Outcome('normal', st, r)]
+
+    def h_calcVerifyBytes(ex, recv, args, kwargs, st, fr, node):
+        r = fresh_opaque('verify_bytes')
+        st.ghost['cvb'] = r
+        st.ghost['cvb_args'] = VTuple(list(args))
+        return [Outcome('normal', st, r)]
+
+    def h_sigHashes(ex, recv, args, kwargs, st, fr, node):
+        r = fresh_opaque('sig_algs')
+        if 'certList' in kwargs:
+            st.ghost['cv_algs'] = r
+            st.ghost['cv_algs_args'] = VTuple([args[0], kwargs['certList'], kwargs.get('version', VNone())])
+        return [Outcome('normal', st, r)]
+
+    def h_ver_func(ex, recv, args, kwargs, st, fr, node):
+        r = fresh_opaque('verify_result')
+        cv = st.ghost.get('msg_cv')
+        if cv is None or not z3.is_true(z3.simplify(T(args[0]) == attr_t('signature', T(cv)))):
+            return [Outcome('normal', st, r)]          # the server checking its own signature
+        rec['cv'] += 1
+        g = st.ghost
+        cert = g.get('msg_cert')
+        chain = attr_t('cert_chain', T(cert)) if cert is not None else v_none
+        pk = UF('pure_getEndEntityPublicKey_1', Val, Val)(attr_t('getEndEntityPublicKey', chain))
+        f = T(st.env['ver_func'])
+        scheme = attr_t('signatureAlgorithm', T(cv))
+        # C05: "a valid signature by the end-entity key over this transcript"
+        ob(ex, st, 'C05:client-CV:verification-routine-belongs-to-the-end-entity-key-of-the-received-chain',
+                  z3.Or(f == attr_t('verify', pk), f == attr_t('hashAndVerify', pk)), kind='m2')
+        ca = g.get('cvb_args')
+        okc = ca is not None and isinstance(ca, VTuple) and len(ca.items) == 8
+        ob(ex, st, 'C05:client-CV:signed-content-computed', z3.BoolVal(bool(okc)), kind='m2')
+        if okc:
+            ob(ex, st, 'C05:client-CV:signed-content-is-calcVerifyBytes((3,4), snapshot, scheme, ..., b"client")',
+                      z3.And(T(args[1]) == gv(g, 'cvb'), T(ca.items[0]) == tup(3, 4), T(ca.items[2]) == scheme,
+                             eq_op(ca.items[7], lift_bytes(b'client')).t,
+                             T(ca.items[6]) == V_GETITEM(gv(g, 'prf'), v_int(z3.IntVal(0)))), kind='m2')
+            snap = st.env.get('cli_cert_verify_hh')
+            # the transcript snapshot: taken after the client Certificate and before the CertificateVerify was read
+            ob(ex, st, 'C05:client-CV:transcript-snapshot-taken-after-Certificate-and-before-CertificateVerify',
+                      z3.And(T(ca.items[1]) == T(snap), T(snap) == gv(g, 'last_copy'),
+                             truthy(g.get('last_copy_of_transcript', VBool(z3.BoolVal(False)))),
+                             tint(g.get('t_msg_cert')) < tint(g.get('t_last_copy')), tint(g.get('t_last_copy')) < tint(g.get('t_msg_cv'))),
+                          kind='m2')
+        al = g.get('cv_algs')
+        aa = g.get('cv_algs_args')
+        # "signs with a scheme that was not offered ... is rejected" (RFC 8446 4.4.3)
+        ob(ex, st, 'C05:client-CV:scheme-in-_sigHashesToList(settings, certList=chain, version=(3,4))',
+                  al is not None and z3.And(V_IN(scheme, T(al)), T(aa.items[0]) == T(st.env['settings']),
+                                            T(aa.items[1]) == chain, T(aa.items[2]) == tup(3, 4)), kind='m2')
+        st.ghost['cv_result'] = r
+        st.ghost['cv_chain'] = VOpaque(chain)
+        return [Outcome('normal', st, r)]
+
+    def on_compare(ex, op, a, b, st, fr, node):
+        if isinstance(op, ast.NotEq) and isinstance(node, ast.Compare) and src(node.left) == 'cl_finished.verify_data':
+            st.ghost['fin_eq'] = VBool(T(a) == T(b))
+            st.ghost['fin_lhs'] = a
+
+    def h_create(ex, recv, args, kwargs, st, fr, node):
+        if 'resumptionMasterSecret' in kwargs:
+            rec['session'] += 1
+            g = st.ghost
+            chain = T(args[4])
+            none = z3.Not(v_truthy(chain))
+            cert = g.get('msg_cert')
+            recv_chain = attr_t('cert_chain', T(cert)) if cert is not None else None
+            cvr = g.get('cv_result')
+            proved = z3.BoolVal(False)
+            empty = z3.BoolVal(False)
+            if recv_chain is not None:
+                ncerts = UF('pure_getNumCerts_1', Val, Val)(attr_t('getNumCerts', recv_chain))
+                empty = z3.And(chain == recv_chain, z3.Not(v_truthy(ncerts)))
+                if cvr is not None:
+                    proved = z3.And(chain == recv_chain, gv(g, 'cv_chain') == recv_chain, v_truthy(T(cvr)))
+            bt = g.get('binder_ticket')
+            inherited = z3.BoolVal(False)
+            if bt is not None:
+                inherited = z3.And(truthy(ex.ghost_get(st, 'binder_ok')), v_truthy(T(bt)),
+                                   chain == attr_t('client_cert_chain', T(bt)))
+            # C05 / C13: the client identity of the session is proved in this handshake (CertificateVerify) or is
+            # the authenticated identity stored in the ticket whose binder verified
+            ob(ex, st, 'C05:session:client-chain-is-none | empty | CertificateVerify-verified | inherited-from-the-ticket-whose-binder-verified',
+                      z3.Or(none, empty, proved, inherited), kind='m2')
+            fe = g.get('fin_eq')
+            fin = g.get('msg_finished')
+            ob(ex, st, 'C05:session:created-only-after-the-client-Finished-compared-equal',
+                      fe is not None and fin is not None and z3.And(truthy(fe), gv(g, 'fin_lhs') == attr_t('verify_data', T(fin))),
+                      kind='m2')
+            return None
+        if src(node).startswith('SrvPreSharedKeyExtension().create('):
+            rec['psk_ext'] += 1
+            g = st.ghost
+            # C05: "PSK identity attributed only with a correct binder": the index announced in ServerHello is the
+            # one whose binder verified, and the key schedule runs on that identity's secret
+            ob(ex, st, 'C05:ServerHello:a-PSK-is-selected-only-after-verify_binder-returned-normally',
+                      truthy(ex.ghost_get(st, 'binder_ok')), kind='m2')
+            ob(ex, st, 'C05:ServerHello:selected-PSK-index-is-the-one-whose-binder-verified',
+                      z3.BoolVal('binder_pos' in g) if 'binder_pos' not in g else T(args[0]) == gv(g, 'binder_pos'),
+                      kind='m2')
+            ob(ex, st, 'C05:ServerHello:key-schedule-runs-on-the-secret-the-binder-was-verified-with',
+                      z3.BoolVal(False) if 'binder_psk' not in g else
+                      z3.Or(gv(g, 'binder_psk') == v_none, T(st.env['psk']) == gv(g, 'binder_psk')), kind='m2')
+        return None
+
+    spec = M2Spec(hooks={'_sendError': h_sendError, '_getPRFParams': h_getPRF, '_tryDecrypt': h_tryDecrypt,
+                         'verify_binder': h_verify_binder, '_getMsg': h_getMsg, 'calcVerifyBytes': h_calcVerifyBytes,
+                         '_sigHashesToList': h_sigHashes, 'ver_func': h_ver_func, 'create': h_create, 'copy': h_copy},
+                  pure={'getExtension', 'getEndEntityPublicKey', 'getNumCerts', 'toRepr', 'getHash', 'getPadding',
+                        'digest', 'secureHMAC', 'derive_secret', 'HKDF_expand_label', 'decode', 'len', 'isinstance',
+                        'getattr', 'bytearray', 'chain'},
+                  stable_fields={'_pre_client_hello_handshake_hash', 'version'})
+    spec.refine_loops = True
+    spec.loop_elem_facts = True
+    spec.on_compare = on_compare
+    spec.on_name = make_on_name({'selected_group', 'cl_key_share', 'shared_sec', 'key_share'})
+
+    def setup(ex, st, fr):
+        ex.spec.field_like_properties = FIELD_LIKE
+        prebind('selected_group', 'cl_key_share', 'shared_sec', 'key_share')(ex, st, fr)
+        me = st.env['self']
+        st.heap[(me.oid, '_pre_client_hello_handshake_hash')] = VOpaque(z3.Const('pre_ch_hash', Val))
+        st.heap[(me.oid, 'version')] = VOpaque(z3.Const('conn_version', Val))
+
+    def check(api):
+        entry = api.entry
+        for k in rec:
+            api.oblige(entry, 'cover:site-reached:%s' % k, rec[k] >= 1)
+        api.oblige(entry, 'cover:"finished"-exit-reached', len(api.normal_exits()) >= 1)
+    return spec, check, setup
+
+
+def lift_bytes(b):
+    from pyvc.executor import lift_py
+    return lift_py(b)
+
+
+def _reg_t13():
+    for (nm, prop, keep, doc) in (
+            ('peer-identity', ('C05', 'C13'), lambda n: not n.startswith('C08:'),
+             'TLS 1.3 server: a PSK identity is selected (and the client chain of its ticket inherited) only after '
+             'verify_binder returned for that identity with the secret of that identity and the suite PRF; a client '
+             'chain is recorded only after CertificateVerify (offered scheme, end-entity key, snapshot transcript) '
+             'and Finished'),
+            ('locals-bound', ('C08',), lambda n: n.startswith('C08:') or n.startswith('cover:"finished"'),
+             'TLS 1.3 server: selected_group / cl_key_share / key_share / shared_sec are bound wherever they are '
+             'read (no UnboundLocalError on a peer-chosen combination of extensions)')):
+        spec, check, setup = _t13()
+        m2s('_serverTLS13Handshake/' + nm, prop, S13, spec, check=check, setup=setup, doc=doc, keep=keep)
+
+
+_reg_t13()
+
+
+# ===================================================================================================
+# _serverCertKeyExchange (C05 client authentication in TLS <= 1.2; C11 wire uniformity)
+# ===================================================================================================
+
+SCK = TC + '_serverCertKeyExchange'
+
+
+def _t14():
+    from tlslite.errors import TLSIllegalParameterException, TLSDecodeError
+    rec = {'cv': 0, 'pms': 0}
+    PMS = []
+
+    def h_process(ex, recv, args, kwargs, st, fr, node):
+        rec['pms'] += 1
+        r = fresh_opaque('premaster')
+        PMS.append(r.t)
+        st.ghost['pms'] = r
+        st.ghost['t_cke_processed'] = tick()
+        outs = [Outcome('normal', st, r)]
+        for cls in (TLSIllegalParameterException, TLSDecodeError):
+            bad = st.fork()
+            bad.ghost['cke_rejected'] = VBool(z3.BoolVal(True))
+            outs.append(Outcome('raise', bad, VExc(cls, [], 'processClientKeyExchange raises %s' % cls.__name__)))
+        return outs
+
+    def h_getMsg(ex, recv, args, kwargs, st, fr, node):
+        r = fresh_opaque('msg')
+        ex.havoc_call('_getMsg', st)
+        ht = args[1] if len(args) > 1 else None
+        key = 'msg_other'
+        if isinstance(ht, VInt):
+            k = z3.simplify(ht.t)
+            if z3.is_int_value(k):
+                key = {HandshakeType.certificate_verify: 'msg_cv', HandshakeType.certificate: 'msg_cert',
+                       HandshakeType.client_key_exchange: 'msg_cke'}.get(k.as_long(), 'msg_other')
+        st.ghost[key] = r
+        st.ghost['t_' + key] = tick()
+        return [Outcome('normal', st, r)]
+
+    def h_copy(ex, recv, args, kwargs, st, fr, node):
+        r = fresh_opaque('hh_copy')
+        st.ghost['last_copy'] = r
+        st.ghost['t_last_copy'] = tick()
+        st.ghost['last_copy_of_transcript'] = VBool(z3.BoolVal(src(node.func.value) == 'self._handshake_hash'))
+        return [Outcome('normal', st, r)]
+
+    CVB_SSL3 = UF('calcVerifyBytes_ssl3', Val, Val, Val, Val, Val)
+    CVB_TLS = UF('calcVerifyBytes_tls', Val, Val, Val, Val, Val)
+
+    def h_calcVerifyBytes(ex, recv, args, kwargs, st, fr, node):
+        """KeyExchange.calcVerifyBytes(version, hashes, sigAlg, premaster, clientRandom, serverRandom, key_type=):
+        a pure function; the premaster secret and the randoms are used only for version == (3, 0)
+        (task m2:calcVerifyBytes/premaster-use)"""
+        ver, hh, alg, pms, cr, sr = [T(a) for a in args[:6]]
+        kt = T(kwargs.get('key_type', VStr('rsa')))
+        r = VOpaque(z3.If(ver == tup(3, 0), CVB_SSL3(hh, pms, cr, sr), CVB_TLS(ver, hh, alg, kt)))
+        st.ghost['cvb'] = r
+        st.ghost['cvb_args'] = VTuple(list(args[:6]))
+        return [Outcome('normal', st, r)]
+
+    def h_sigHashes(ex, recv, args, kwargs, st, fr, node):
+        r = fresh_opaque('sig_algs')
+        if 'certList' in kwargs:
+            st.ghost['cv_algs'] = r
+            for k, v in enumerate([args[0], kwargs['certList'], kwargs.get('version', VNone())]):
+                st.ghost['cv_algs_a%d' % k] = v
+        else:
+            st.ghost['advertised_algs'] = r
+        return [Outcome('normal', st, r)]
+
+    def h_check_chain(ex, recv, args, kwargs, st, fr, node):
+        """_check_certchain_with_settings(chain, settings) -> the end-entity public key of `chain` (or alert)"""
+        r = VOpaque(UF('checked_public_key', Val, Val, Val)(T(args[0]), T(args[1])))
+        st.ghost['pk_chain'] = args[0]
+        return [Outcome('normal', st, r)]
+
+    VERIFY = UF('pure_ver_func', Val, Val, Val, Val, Val, Val, Val)
+
+    def h_ver_func(ex, recv, args, kwargs, st, fr, node):
+        rec['cv'] += 1
+        g = st.ghost
+        me = st.env['self']
+        cv = g.get('msg_cv')
+        cert = g.get('msg_cert')
+        chain = T(st.env['clientCertChain'])
+        f = T(st.env['ver_func'])
+        pk = UF('checked_public_key', Val, Val, Val)(chain, T(st.env['settings']))
+        ob(ex, st, 'C05:client-CV:signature-is-the-CertificateVerify-messages',
+                  cv is not None and T(args[0]) == attr_t('signature', T(cv)), kind='m2')
+        ob(ex, st, 'C05:client-CV:chain-is-the-one-in-the-received-Certificate-message',
+                  cert is not None and chain == attr_t('cert_chain', T(cert)), kind='m2')
+        ob(ex, st, 'C05:client-CV:verification-routine-belongs-to-the-checked-end-entity-key-of-that-chain',
+                  z3.Or(f == attr_t('verify', pk), f == attr_t('hashAndVerify', pk)), kind='m2')
+        ca = g.get('cvb_args')
+        ok = ca is not None and 'cvb' in g
+        ob(ex, st, 'C05:client-CV:signed-content-computed', z3.BoolVal(bool(ok)), kind='m2')
+        if ok:
+            ver = T(st.heap[(me.oid, 'version')])
+            cvb = gv(g, 'cvb')
+            sliced = UF('v_slice', Val, Val, Val, Val)
+            is_cvb = z3.Or(T(args[1]) == cvb,
+                           z3.And([T(args[1]) == e for e in apps([T(args[1])], lambda e: e.decl().name() == 'v_slice'
+                                                                  and e.arg(0).eq(cvb))] or [z3.BoolVal(False)]))
+            ob(ex, st, 'C05:client-CV:signed-content-is-calcVerifyBytes(version, snapshot, scheme, premaster, randoms)',
+                      z3.And(is_cvb, T(ca.items[0]) == ver, T(ca.items[2]) == T(st.env['signatureAlgorithm']),
+                             T(ca.items[3]) == gv(g, 'pms'),
+                             T(ca.items[4]) == attr_t('random', T(st.env['clientHello'])),
+                             T(ca.items[5]) == attr_t('random', T(st.env['serverHello']))), kind='m2')
+            # the snapshot: transcript after ClientKeyExchange, before CertificateVerify
+            ob(ex, st, 'C05:client-CV:transcript-snapshot-taken-after-ClientKeyExchange-and-before-CertificateVerify',
+                      z3.And(T(ca.items[1]) == gv(g, 'last_copy'), truthy(g.get('last_copy_of_transcript', VBool(z3.BoolVal(False)))),
+                             tint(g.get('t_msg_cke')) < tint(g.get('t_last_copy')),
+                             tint(g.get('t_last_copy')) < tint(g.get('t_msg_cv'))), kind='m2')
+            al = g.get('cv_algs')
+            aa = [g.get('cv_algs_a%d' % k) for k in range(3)]
+            scheme = attr_t('signatureAlgorithm', T(cv)) if cv is not None else v_none
+            # "signs with a scheme that was not offered ... is rejected": TLS 1.2 CertificateRequest list
+            ob(ex, st, 'C05:client-CV:TLS1.2-scheme-in-_sigHashesToList(settings, certList=chain, version)',
+                      z3.Implies(ver == tup(3, 3),
+                                 al is not None and z3.And(V_IN(scheme, T(al)), T(aa[0]) == T(st.env['settings']),
+                                                           T(aa[1]) == chain, T(aa[2]) == ver,
+                                                           z3.Implies(v_truthy(scheme), T(st.env['signatureAlgorithm']) == scheme))),
+                      kind='m2')
+        r = VOpaque(VERIFY(f, *[T(a) for a in args]))
+        st.ghost['cv_result'] = r
+        st.ghost['cv_chain'] = VOpaque(chain)
+        return [Outcome('normal', st, r)]
+
+    exits = Exits()
+    spec = M2Spec(hooks={'_sendError': h_sendError_line, 'processClientKeyExchange': h_process, '_getMsg': h_getMsg,
+                         'copy': h_copy, 'calcVerifyBytes': h_calcVerifyBytes, '_sigHashesToList': h_sigHashes,
+                         '_check_certchain_with_settings': h_check_chain, 'ver_func': h_ver_func},
+                  pure={'getExtension', 'getNumCerts', 'toRepr', 'toStr', 'getHash', 'getPadding', 'isinstance',
+                        'getattr', 'len', 'choose_compression_send_algo'},
+                  on_yield=exits.on_yield, stable_fields={'version', '_certificate_verify_handshake_hash'})
+
+    def setup(ex, st, fr):
+        ex.spec.field_like_properties = FIELD_LIKE
+        me = st.env['self']
+        st.heap[(me.oid, 'version')] = VOpaque(z3.Const('conn_version', Val))
+
+    def check(api):
+        entry = api.entry
+        api.oblige(entry, 'cover:CertificateVerify-check-and-key-exchange-reached', rec['cv'] >= 1 and rec['pms'] >= 1)
+        api.oblige(entry, 'cover:normal-exit-reached', len(exits.full) >= 1)
+        for (st, val) in exits.full:
+            g = st.ghost
+            chain = T(val.items[1])
+            cvr = g.get('cv_result')
+            proved = z3.BoolVal(False) if cvr is None else z3.And(gv(g, 'cv_chain') == chain, v_truthy(T(cvr)))
+            # C05: "a peer certificate chain is attributed to the peer only if the peer proved knowledge ..."
+            api.oblige(st, 'C05:exit:client-chain-is-None-or-its-CertificateVerify-verified', z3.Or(chain == v_none, proved))
+            api.oblige(st, 'C11:exit:premaster-is-the-value-processClientKeyExchange-returned',
+                       'pms' in g and T(val.items[0]) == gv(g, 'pms'))
+        # C11 wire uniformity: after processClientKeyExchange returned, no fatal alert depends on the premaster
+        # value (TLS >= 1.0; in SSLv3 the CertificateVerify hash covers the master secret -- stated carve-out)
+        n = 0
+        for o in api.raise_exits(NoReturn):
+            st = o.st
+            if 'pms' not in st.ghost or 'cke_rejected' in st.ghost:
+                continue
+            n += 1
+            p = st.ghost['pms'].t
+            p2 = z3.Const('premaster_other', Val)
+            pc = z3.And(list(st.pc) + [z3.BoolVal(True)])
+            ver = z3.Const('conn_version', Val)
+            api.oblige(st, 'C11:alert-after-key-exchange-does-not-depend-on-the-premaster-value (TLS>=1.0)',
+                       z3.Implies(z3.BoolVal(True) if __import__('os').environ.get('M2S_NO_SSL3_CARVEOUT') else ver != tup(3, 0),
+                                  z3.substitute(pc, (p, p2))))
+        api.oblige(entry, 'cover:alert-exits-after-key-exchange-examined', n >= 2)
+        # the premaster local flows only into calcVerifyBytes and the result (syntactic data flow)
+        uses = [x for x in ast.walk(api.fr.fs.node) if isinstance(x, ast.Name) and x.id == 'premasterSecret'
+                and isinstance(x.ctx, ast.Load)]
+        parents = {}
+        for x in ast.walk(api.fr.fs.node):
+            for c in ast.iter_child_nodes(x):
+                parents[c] = x
+        okuse = 0
+        for u in uses:
+            p = parents.get(u)
+            if isinstance(p, ast.Call) and isinstance(p.func, ast.Attribute) and p.func.attr == 'calcVerifyBytes':
+                okuse += 1
+            elif isinstance(p, ast.Tuple) and isinstance(parents.get(p), ast.Yield):
+                okuse += 1
+        api.oblige(entry, 'C11:premaster-flows-only-into-calcVerifyBytes-and-the-result', okuse == len(uses) and okuse >= 2)
+    return spec, check, setup
+
+
+_spec14, _check14, _setup14 = _t14()
+m2s('_serverCertKeyExchange/client-auth-and-uniformity', ('C05', 'C11'), SCK, _spec14, check=_check14, setup=_setup14,
+    opts={'pure_slice': True},
+    doc='TLS<=1.2 server: a client chain is returned only if CertificateVerify verified (offered scheme in 1.2, '
+        'checked end-entity key of that chain, transcript snapshot after ClientKeyExchange); after the key exchange '
+        'no alert depends on the premaster value')
+REG.note('C05', 'trusted', 'm2_server/_serverCertKeyExchange: _check_certchain_with_settings(chain, settings) returns '
+                           'chain.getEndEntityPublicKey() or aborts with an alert (tlsconnection.py, read); the list '
+                           '_sigHashesToList(settings, certList=chain, version) is a sub-list of the list advertised '
+                           'in CertificateRequest (_sigHashesToList(validated settings, version); read)')
+REG.note('C11', 'assumptions', 'm2_server/_serverCertKeyExchange: SSLv3 carve-out -- with client authentication the '
+                               'SSLv3 CertificateVerify hash covers the master secret, so a substituted premaster '
+                               'fails at CertificateVerify (decrypt_error) instead of Finished; uniform over the kind '
+                               'of malformation because the substitute is (contracts/rsa.py)')
+
+
+# ---------------------------------------------------------------------------------------------------
+# T15  KeyExchange.calcVerifyBytes uses the premaster secret and the randoms only for SSLv3 (C11 support)
+
+def _t15():
+    seen = []
+
+    def on_name(ex, name, val, st, fr, node):
+        if name in ('premasterSecret', 'clientRandom', 'serverRandom') and isinstance(node.ctx, ast.Load):
+            seen.append(name)
+            ob(ex, st, 'C11:calcVerifyBytes:%s-read-only-for-version==(3,0)' % name,
+                      T(st.env['version']) == tup(3, 0), kind='m2')
+    spec = M2Spec(pure={'digest', 'digestSSL', 'toRepr', 'getHash', 'getPadding', 'addPKCS1Prefix', 'secureHash',
+                        'calc_key'})
+    spec.on_name = on_name
+
+    def check(api):
+        api.oblige(api.entry, 'cover:premaster-and-randoms-are-read', len(set(seen)) == 3)
+        api.oblige(api.entry, 'cover:returns', len([o for o in api.outs if o.kind == 'return']) >= 1)
+    return spec, check
+
+
+_spec15, _check15 = _t15()
+m2s('calcVerifyBytes/premaster-use', ('C11',), 'tlslite/keyexchange.py:KeyExchange.calcVerifyBytes', _spec15,
+    check=_check15,
+    doc='calcVerifyBytes reads premasterSecret / clientRandom / serverRandom only on the SSLv3 branch (justifies the '
+        'model used in _serverCertKeyExchange/client-auth-and-uniformity)')
+
+
+# ---------------------------------------------------------------------------------------------------
+# T16/T17  SRP and anonymous key exchange: exception-to-alert mapping, result wiring (C05, C08)
+
+def _kex_task(fname, makers_raise, label):
+    from tlslite import errors as E
+    rec = {'mk': 0, 'pr': 0}
+    EXPECT = {'TLSUnknownPSKIdentity': AlertDescription.unknown_psk_identity,
+              'TLSInsufficientSecurity': AlertDescription.insufficient_security,
+              'TLSIllegalParameterException': AlertDescription.illegal_parameter,
+              'TLSDecodeError': AlertDescription.decode_error,
+              'TLSHandshakeFailure': AlertDescription.handshake_failure}
+
+    def raising(name, classes, key):
+        def h(ex, recv, args, kwargs, st, fr, node):
+            rec[key] += 1
+            r = fresh_opaque(name)
+            st.ghost[name] = r
+            outs = [Outcome('normal', st, r)]
+            for cn in classes:
+                bad = st.fork()
+                bad.ghost['raised'] = VInt(z3.IntVal(int(EXPECT[cn])))
+                outs.append(Outcome('raise', bad, VExc(getattr(E, cn), [], '%s raises %s' % (name, cn))))
+            return outs
+        return h
+
+    exits = Exits()
+    spec = M2Spec(hooks={'_sendError': h_sendError,
+                         'makeServerKeyExchange': raising('ske', makers_raise, 'mk'),
+                         'processClientKeyExchange': raising('premaster', ('TLSIllegalParameterException',
+                                                                           'TLSDecodeError'), 'pr'),
+                         '_pickServerKeyExchangeSig': raising('picked', ('TLSHandshakeFailure',), 'mk')},
+                  pure={'getExtension', 'str'}, on_yield=exits.on_yield)
+
+    def on_yield(ex, val, st, fr, ynode):
+        if isinstance(ynode.value, ast.Name) and ynode.value.id == 'premasterSecret':
+            exits.full.append((st.fork(), VTuple([val])))
+        else:
+            exits.on_yield(ex, val, st, fr, ynode)
+    spec.on_yield = on_yield
+
+    def check(api):
+        entry = api.entry
+        api.oblige(entry, 'cover:%s:hooks-and-exit-reached' % label, rec['mk'] >= 1 and rec['pr'] >= 1 and len(exits.full) >= 1)
+        for (st, val) in exits.full:
+            api.oblige(st, 'C05:%s:premaster-handed-on-is-the-one-processClientKeyExchange-computed' % label,
+                       'premaster' in st.ghost and T(val.items[0]) == gv(st.ghost, 'premaster'))
+        n = 0
+        for o in api.raise_exits():
+            if o.val.cls is NoReturn:
+                r = o.st.ghost.get('raised')
+                if r is not None:
+                    n += 1
+                    # C08 / C05 (SRP: unknown user => unknown_psk_identity; A % N == 0 => illegal_parameter)
+                    api.oblige(o.st, 'C08:%s:library-exception-becomes-the-matching-fatal-alert' % label,
+                               T(o.val.args[0]) == T(r))
+            else:
+                api.unreachable(o.st, 'C08:%s:no-exception-class-escapes:%s' % (label, getattr(o.val.cls, '__name__', '?')))
+        api.oblige(entry, 'cover:%s:mapped-alert-exits-examined' % label, n >= 2)
+    return spec, check
+
+
+_spec16, _check16 = _kex_task('_serverSRPKeyExchange', ('TLSUnknownPSKIdentity', 'TLSInsufficientSecurity'), 'SRP')
+m2s('_serverSRPKeyExchange/alerts-and-result', ('C05', 'C08'), TC + '_serverSRPKeyExchange', _spec16, check=_check16,
+    doc='SRP: unknown user / weak group / bad A become unknown_psk_identity / insufficient_security / '
+        'illegal_parameter alerts, nothing else escapes; the premaster handed on is processClientKeyExchange\'s')
+_spec17, _check17 = _kex_task('_serverAnonKeyExchange', (), 'anon')
+m2s('_serverAnonKeyExchange/alerts-and-result', ('C08',), TC + '_serverAnonKeyExchange', _spec17, check=_check17,
+    doc='anonymous DH: bad client share becomes illegal_parameter / decode_error, nothing else escapes')
+
+
+# ---------------------------------------------------------------------------------------------------
+# T18  _serverFinished: order and arguments (C04, C05, C13)
+
+def _t18():
+    rec = {}
+
+    def h(name):
+        def hook(ex, recv, args, kwargs, st, fr, node):
+            r = fresh_opaque(name)
+            rec[name] = rec.get(name, 0) + 1
+            st.ghost['r_' + name] = r
+            st.ghost['t_' + name] = tick()
+            for k, a in enumerate(args):
+                st.ghost['%s_a%d' % (name, k)] = a
+            for k, a in kwargs.items():
+                st.ghost['%s_k_%s' % (name, k)] = a
+            return [Outcome('normal', st, r)]
+        return hook
+
+    def store_ms(ex, obj, val, st, fr, node):
+        st.ghost['session_ms'] = val
+
+    names = ('_calculate_master_secret', '_calcPendingStates', '_getFinished', '_sendFinished')
+    spec = M2Spec(hooks=dict((n, h(n)) for n in names), on_store={'masterSecret': store_ms})
+
+    def check(api):
+        entry = api.entry
+        e = entry.env
+        ex_ = api.normal_exits()
+        api.oblige(entry, 'cover:normal-exit-and-four-calls', len(ex_) >= 1 and all(rec.get(n, 0) >= 1 for n in names))
+        for o in ex_:
+            g = o.st.ghost
+            ms = gv(g, 'r__calculate_master_secret')
+            api.oblige(o.st, 'C03:master-secret-from-(premaster, suite, client random, server random)',
+                       z3.And([T(g['_calculate_master_secret_a%d' % k]) == T(e[n]) for k, n in
+                               enumerate(('premasterSecret', 'cipherSuite', 'clientRandom', 'serverRandom'))]))
+            api.oblige(o.st, 'C13:session-master-secret-is-the-computed-one', gv(g, 'session_ms') == ms)
+            api.oblige(o.st, 'C03:pending-states-from-(suite, master secret, randoms, implementations)',
+                       z3.And(gv(g, '_calcPendingStates_a0') == T(e['cipherSuite']), gv(g, '_calcPendingStates_a1') == ms,
+                              gv(g, '_calcPendingStates_a2') == T(e['clientRandom']),
+                              gv(g, '_calcPendingStates_a3') == T(e['serverRandom'])))
+            # C04/C05/C13: the client's Finished is verified (under this master secret) BEFORE the server sends the
+            # ticket / its own Finished -- a ticket carrying the client identity is issued only to a proven peer
+            api.oblige(o.st, 'C04:client-Finished-checked-under-this-master-secret-before-ticket-and-server-Finished',
+                       z3.And(gv(g, '_getFinished_a0') == ms, gv(g, '_sendFinished_a0') == ms,
+                              tint(g.get('t__calcPendingStates')) < tint(g.get('t__getFinished')),
+                              tint(g.get('t__getFinished')) < tint(g.get('t__sendFinished'))))
+            api.oblige(o.st, 'C13:ticket-decision-and-client-chain-handed-to-_sendFinished-unchanged',
+                       z3.And(gv(g, '_sendFinished_k_send_session_ticket') == T(e['send_session_ticket']),
+                              gv(g, '_sendFinished_k_client_cert_chain') == T(e['client_cert_chain']),
+                              gv(g, '_sendFinished_k_settings') == T(e['settings'])))
+    return spec, check
+
+
+_spec18, _check18 = _t18()
+m2s('_serverFinished/order', ('C04', 'C03', 'C13'), TC + '_serverFinished', _spec18, check=_check18,
+    doc='full handshake <= TLS 1.2: master secret from the negotiated inputs, recorded in the session; the client '
+        'Finished is checked before the server sends ticket, ChangeCipherSpec and Finished')
+
+
+# ===================================================================================================
+# live reproductions of the refuted obligations (specs/m2_server.py; failure classes for known_findings.json)
+# ===================================================================================================
+REG.xchecks.append({'prop': 'C08', 'module': 'specs.m2_server', 'name': 'server_clienthello', 'function': SGC})
+REG.xchecks.append({'prop': 'C08', 'module': 'specs.m2_server', 'name': 'server_tls13_unbound', 'function': S13})
+REG.xchecks.append({'prop': 'C03', 'module': 'specs.m2_server', 'name': 'server_version_floor', 'function': SGC})
+REG.xchecks.append({'prop': 'C04', 'module': 'specs.m2_server', 'name': 'server_resumed_sentinel', 'function': SGC})
+
+REG.note('C08', 'not_built', 'm2_server: dereference obligations are posed for _serverGetClientHello and '
+                             '_serverTLS13Handshake (unbound locals) only; [k] subscripts with k other than 0/-1 and '
+                             'dereferences inside opaque callees are not examined')
+REG.note('C13', 'not_built', 'm2_server: TLS 1.3 ticket age / obfuscated_ticket_age window is not checked by the code '
+                             'and not required here; PSK binder verification itself (HandshakeHelpers.verify_binder) '
+                             'is an opaque callee')
+REG.note('C05', 'not_built', 'm2_server: post-handshake authentication (_handle_srv_pha) and the SRP password proof '
+                             '(Finished under the SRP premaster) are outside this module')
